@@ -121,6 +121,8 @@ Lemma bind_modify : forall f k st, bind (modify f) k st = k 0 (f st).
 Proof. reflexivity. Qed.
 Lemma bind_ret : forall v k st, bind (ret v) k st = k v st.
 Proof. reflexivity. Qed.
+Lemma bind_ret_k : forall v (k : M) st, bind (ret v) (fun _ => k) st = k st.
+Proof. reflexivity. Qed.
 Lemma bind_eof : forall k st, bind eof k st = k (if pos st >=? len st then 1 else 0) st.
 Proof. reflexivity. Qed.
 
@@ -1417,6 +1419,1253 @@ Proof.
   unfold dec_level. rewrite bind_modify. stsimpl. unfold ret, NS. cbn [Z.sub Z.add Z.opp Z.pos_sub Pos.pred_double].
   reflexivity.
 Qed.
+
+(* ================================================================ parameter types: names, substitutions, qualifiers *)
+(* parser state inside a type: dd->type = t > 0, nothing is appended *)
+Definition G (p : Z) (o : option (list Z)) (lv t tp : Z) (fnm : bool) : state :=
+  mkst p L o t lv tp false fnm false false.
+
+Lemma source_skip_at : forall p o lv t tp fnm id rest, t <> 0 ->
+  At p (src id ++ rest) -> ident_okb id = true ->
+  dd_source_name true s 0 (G p o lv t tp fnm) = R 0 (G (p + Z.of_nat (List.length (src id))) o lv t tp fnm).
+Proof.
+  intros p o lv t tp fnm id rest Ht H Hid.
+  set (n := Z.of_nat (List.length id)).
+  assert (Hndef : n = Z.of_nat (List.length id)) by reflexivity.
+  pose proof (ident_len id Hid) as Hn. fold n in Hn.
+  unfold src in *. fold n in H. fold n. rewrite <- app_assoc in H.
+  unfold dd_source_name, G.
+  erewrite bind_R; [| apply (number_at _ n (id ++ rest)); [ exact H | reflexivity | exact Hn
+                                                          | apply ident_starts_nondigit; exact Hid ] ].
+  rwf (n <? 0).
+  apply At_app in H. set (p0 := p + Z.of_nat (List.length (dec n))) in *.
+  stsimpl. fold p0.
+  assert (Hfin : p + Z.of_nat (List.length (dec n ++ id)) = p0 + n) by (rewrite app_length; unfold p0; lia).
+  rewrite Hfin. clearbody p0. clearbody n.
+  assert (Hp0n : p0 + n <= L) by (destruct H as [H0 [H1 H2]]; rewrite app_length in H2; lia).
+  pose proof (At_le _ _ H) as Hp0r.
+  rewrite bind_eof. stsimpl. rwf (p0 >=? L).
+  rewrite bind_gets, bind_gets. stsimpl. cbn [Z.eqb negb andb]. rwf (n >? L - p0).
+  rewrite bind_gets, bind_getb, bind_gets. stsimpl. rwf (t =? 0). cbn [Z.eqb negb andb orb].
+  erewrite bind_R; [| apply (consume_n_at _ n (id ++ rest)); [ exact H | reflexivity | rewrite app_length; lia ] ].
+  reflexivity.
+Qed.
+
+Lemma unq_skip : forall k p o lv t tp fnm id rest, t <> 0 ->
+  At p (src id ++ rest) -> ident_okb id = true -> hd0 rest <> 66 ->
+  run true s 0 (S k) FUnqualifiedName (G p o lv t tp fnm) =
+  R 0 (G (p + Z.of_nat (List.length (src id))) o lv t tp fnm).
+Proof.
+  intros k p o lv t tp fnm id rest Ht H Hid HB.
+  pose proof (src_hd_digit id rest Hid) as Hd.
+  cbn [run body]. unfold dd_unqualified_name. unfold G at 1.
+  destruct (src id ++ rest) as [| d tl] eqn:E.
+  { exfalso. unfold src in E. destruct (hd0_dec_digit _ (id ++ rest) (ident_len id Hid)) as [_ Hne].
+    rewrite <- app_assoc in E. destruct (dec (Z.of_nat (List.length id))); [ contradiction | discriminate ]. }
+  cbn [hd0] in Hd.
+  erewrite bind_R; [| apply (curr_at _ (d :: tl)); [ exact H | reflexivity ] ].
+  erewrite bind_R; [| apply (peek1_at _ d tl); [ exact H | reflexivity ] ].
+  rewrite bind_eof. stsimpl. pose proof (At_lt _ _ _ H) as Hlt. rwf (p >=? L). cbn [hd0]. chs. cbn [Z.eqb].
+  rwf (d =? 67). rwf (d =? 68). rwf (d =? 85). cbn [orb].
+  unfold islower. rwf (97 <=? d). cbn [andb]. rwf (d =? 76).
+  rewrite bind_ret. rewrite <- E in H. fold (G p o lv t tp fnm).
+  erewrite bind_R; [| apply (source_skip_at p o lv t tp fnm id rest); assumption ].
+  unfold G at 1.
+  erewrite bind_R; [| apply (curr_at _ rest); [ apply At_src_tail; exact H | reflexivity ] ].
+  rwf (hd0 rest =? 66). reflexivity.
+Qed.
+
+(* S <seq-id> _ : the seq-id is a base-36 number (digits and upper-case letters), any length *)
+Definition seqchar (c : Z) : bool := isdigit c || isupper c.
+Lemma span_len_app : forall P a c r, forallb P a = true -> P c = false ->
+  span_len P (a ++ c :: r) = Z.of_nat (List.length a).
+Proof.
+  induction a as [| x a IH]; intros c r Ha Hc; cbn [app span_len List.length].
+  - rewrite Hc. reflexivity.
+  - cbn [forallb] in Ha. apply andb_prop in Ha. destruct Ha as [Hx Ha]. rewrite Hx.
+    rewrite (IH c r Ha Hc). lia.
+Qed.
+
+Lemma subst_seq_at : forall p o lv t tp fnm seq rest,
+  At p (83 :: seq ++ 95 :: rest) -> forallb seqchar seq = true ->
+  dd_substitution true s 0 (G p o lv t tp fnm) = R 0 (G (p + Z.of_nat (List.length seq) + 2) o lv t tp fnm).
+Proof.
+  intros p o lv t tp fnm seq rest H Hs. unfold dd_substitution. unfold G at 1.
+  pose proof (At_lt _ _ _ H) as Hlt.
+  rewrite bind_eof. stsimpl. rwf (p >=? L). cbn [Z.eqb].
+  unfold expect at 1. unfold consume.
+  erewrite bind_R; [| apply (consume_n_at _ 1 (83 :: seq ++ 95 :: rest)); [ exact H | reflexivity | cbn [List.length]; lia ] ].
+  cbn [hd0]. chs. cbn [Z.eqb Pos.eqb]. stsimpl.
+  apply At_cons in H.
+  erewrite bind_R; [| apply (curr_at _ (seq ++ 95 :: rest)); [ exact H | reflexivity ] ].
+  assert (Hh : find_abbrev std_abbrevs (hd0 (seq ++ 95 :: rest)) = None).
+  { destruct seq as [| c sq]; [ reflexivity |]. cbn [app hd0]. cbn [forallb] in Hs. apply andb_prop in Hs. destruct Hs as [Hc _].
+    unfold seqchar, isdigit, isupper in Hc. unfold std_abbrevs, find_abbrev. chs.
+    rwf (c =? 116). rwf (c =? 97). rwf (c =? 98). rwf (c =? 115). rwf (c =? 105). rwf (c =? 111). rwf (c =? 100). reflexivity. }
+  rewrite Hh.
+  (* dd_seq_id *)
+  assert (Hsq : dd_seq_id s 0 (mkst (p + 1) L o t lv tp false fnm false false)
+                = R 0 (mkst (p + 1 + Z.of_nat (List.length seq)) L o t lv tp false fnm false false)).
+  { unfold dd_seq_id.
+    erewrite bind_R; [| apply (curr_at _ (seq ++ 95 :: rest)); [ exact H | reflexivity ] ].
+    rewrite bind_eof. stsimpl.
+    assert (Hlt1 : p + 1 < L). { destruct H as [_ [_ H2]]. rewrite app_length in H2. cbn [List.length] in H2. lia. }
+    rwf (p + 1 >=? L). cbn [Z.eqb]. cbv beta. stsimpl. destruct H as [H0 [H1 H2]]. rewrite H1.
+    rewrite (span_len_app (fun c => isdigit c || isupper c) seq 95 rest Hs eq_refl). reflexivity. }
+  erewrite bind_R; [| exact Hsq ].
+  apply At_app in H.
+  unfold expect. unfold consume.
+  erewrite bind_R; [| apply (consume_n_at _ 1 (95 :: rest)); [ exact H | reflexivity | cbn [List.length]; lia ] ].
+  cbn [hd0]. chs. cbn [Z.eqb Pos.eqb]. stsimpl. unfold ret, G.
+  replace (p + 1 + Z.of_nat (List.length seq) + 1) with (p + Z.of_nat (List.length seq) + 2) by lia. reflexivity.
+Qed.
+
+(* <nested-name> inside a type:  N (<source-name> | S <seq-id> _)* E  *)
+Inductive nitem := ISrc (id : list Z) | ISub (seq : list Z).
+Definition nitem_enc (i : nitem) : list Z :=
+  match i with ISrc id => src id | ISub seq => 83 :: seq ++ [95] end.
+Definition nitem_okb (i : nitem) : bool :=
+  match i with ISrc id => ident_okb id | ISub seq => forallb seqchar seq end.
+Definition nitems_enc (l : list nitem) : list Z := List.concat (map nitem_enc l).
+
+Lemma nitems_hd : forall items rest, forallb nitem_okb items = true ->
+  let h := hd0 (nitems_enc items ++ 69 :: rest) in (48 <= h <= 57) \/ h = 83 \/ h = 69.
+Proof.
+  intros items rest H. destruct items as [| i items]; [ right; right; reflexivity |].
+  cbn [forallb] in H. apply andb_prop in H. destruct H as [Hi _].
+  unfold nitems_enc. cbn [map List.concat]. destruct i as [id | seq]; cbn [nitem_enc nitem_okb] in *.
+  - left. rewrite <- app_assoc. apply src_hd_digit. exact Hi.
+  - right; left. reflexivity.
+Qed.
+
+Lemma nested_skip_loop : forall items k p o lv t tp fnm rest, t <> 0 ->
+  At p (nitems_enc items ++ 69 :: rest) -> forallb nitem_okb items = true ->
+  (List.length items + 2 <= k)%nat ->
+  run true s 0 k (LNested 0) (G p o lv t tp fnm) = R 0 (G (p + Z.of_nat (List.length (nitems_enc items))) o lv t tp fnm).
+Proof.
+  induction items as [| i items IH]; intros k p o lv t tp fnm rest Ht H Hok Hk.
+  - destruct k as [| k]; [ cbn [List.length] in Hk; lia |].
+    cbn [nitems_enc map List.concat app List.length] in *. cbn [run body]. unfold nested_loop, G.
+    erewrite bind_R; [| apply (curr_at _ (69 :: rest)); [ exact H | reflexivity ] ].
+    rewrite bind_eof. stsimpl. pose proof (At_lt _ _ _ H). rwf (p >=? L). cbn [hd0]. chs.
+    replace (p + Z.of_nat 0) with p by lia. reflexivity.
+  - cbn [forallb] in Hok. apply andb_prop in Hok. destruct Hok as [Hi Hitems].
+    cbn [List.length] in Hk. destruct k as [| k]; [ lia |]. destruct k as [| k1]; [ lia |].
+    unfold nitems_enc in *. cbn [map List.concat] in *. rewrite <- app_assoc in H.
+    set (tail := List.concat (map nitem_enc items) ++ 69 :: rest) in *.
+    pose proof (nitems_hd items rest Hitems) as Hh. cbn zeta in Hh. fold (nitems_enc items) in Hh.
+    unfold nitems_enc in Hh. fold tail in Hh.
+    change (run true s 0 (S (S k1)) (LNested 0)) with (nested_loop true s 0 (run true s 0 (S k1)) 0).
+    unfold nested_loop.
+    destruct i as [id | seq]; cbn [nitem_enc nitem_okb] in *.
+    + pose proof (src_hd_digit id tail Hi) as Hd.
+      destruct (src id ++ tail) as [| d tl] eqn:E.
+      { exfalso. unfold src in E. destruct (hd0_dec_digit _ (id ++ tail) (ident_len id Hi)) as [_ Hne].
+        rewrite <- app_assoc in E. destruct (dec (Z.of_nat (List.length id))); [ contradiction | discriminate ]. }
+      cbn [hd0] in Hd. unfold G at 1.
+      erewrite bind_R; [| apply (curr_at _ (d :: tl)); [ exact H | reflexivity ] ].
+      rewrite bind_eof. stsimpl. pose proof (At_lt _ _ _ H) as Hlt. rwf (p >=? L). cbn [hd0]. chs. cbn [Z.eqb].
+      rwf (d =? 69). cbn [orb negb].
+      erewrite bind_R; [| apply (peek1_at _ d tl); [ exact H | reflexivity ] ].
+      rwf (d =? 68). rwf (d =? 67). cbn [andb orb]. rwf (d =? 85). cbn [orb].
+      unfold islower, isdigit. rwf (97 <=? d). rwt (48 <=? d). rwt (d <=? 57). cbn [andb orb].
+      rewrite <- E in H. fold (G p o lv t tp fnm).
+      erewrite bind_R; [| apply (unq_skip k1 p o lv t tp fnm id tail); try assumption; lia ].
+      rewrite (IH (S k1) _ o lv t tp fnm rest Ht (At_src_tail _ _ _ H) Hitems ltac:(lia)).
+      f_equal. unfold G. f_equal. rewrite app_length. lia.
+    + cbn [app] in H. rewrite <- app_assoc in H. cbn [app] in H. unfold G at 1.
+      erewrite bind_R; [| apply (curr_at _ (83 :: seq ++ 95 :: tail)); [ exact H | reflexivity ] ].
+      rewrite bind_eof. stsimpl. pose proof (At_lt _ _ _ H) as Hlt. rwf (p >=? L). cbn [hd0]. chs.
+      cbn [Z.eqb Pos.eqb orb negb].
+      erewrite bind_R; [| apply (peek1_at _ 83 (seq ++ 95 :: tail)); [ exact H | reflexivity ] ].
+      cbn [andb orb]. unfold islower, isdigit. cbn [Z.leb Z.compare Pos.compare Pos.compare_cont andb orb].
+      fold (G p o lv t tp fnm).
+      erewrite bind_R; [| apply (subst_seq_at p o lv t tp fnm seq tail); assumption ].
+      assert (H2 : At (p + Z.of_nat (List.length seq) + 2) tail).
+      { replace (p + Z.of_nat (List.length seq) + 2) with (p + Z.of_nat (List.length (83 :: seq ++ [95])))
+          by (cbn [List.length]; rewrite app_length; cbn [List.length]; lia).
+        apply At_app. cbn [app]. rewrite <- app_assoc. exact H. }
+      rewrite (IH (S k1) _ o lv t tp fnm rest Ht H2 Hitems ltac:(lia)).
+      f_equal. unfold G. f_equal. cbn [List.length app]. repeat rewrite app_length. cbn [List.length]. lia.
+Qed.
+
+Lemma nested_name_skip : forall items k p o lv t tp fnm rest, t <> 0 ->
+  At p (78 :: nitems_enc items ++ 69 :: rest) -> forallb nitem_okb items = true ->
+  (List.length items + 3 <= k)%nat ->
+  run true s 0 k FNestedName (G p o lv t tp fnm) = R 0 (G (p + Z.of_nat (List.length (nitems_enc items)) + 2) o lv t tp fnm).
+Proof.
+  intros items k p o lv t tp fnm rest Ht H Hok Hk.
+  destruct k as [| k]; [ lia |].
+  change (run true s 0 (S k) FNestedName) with (dd_nested_name s 0 (run true s 0 k)).
+  unfold dd_nested_name. unfold G at 1. pose proof (At_lt _ _ _ H).
+  rewrite bind_eof. stsimpl. rwf (p >=? L). cbn [Z.eqb].
+  unfold expect at 1. unfold consume.
+  erewrite bind_R; [| apply (consume_n_at _ 1 (78 :: nitems_enc items ++ 69 :: rest)); [ exact H | reflexivity | cbn [List.length]; lia ] ].
+  cbn [hd0]. chs. cbn [Z.eqb Pos.eqb]. stsimpl.
+  unfold inc_level. rewrite bind_modify. stsimpl.
+  apply At_cons in H. fold (G (p + 1) o (lv + 1) t tp fnm).
+  erewrite bind_R; [| apply (nested_skip_loop items k (p + 1) o (lv + 1) t tp fnm rest Ht H Hok); lia ].
+  apply At_app in H.
+  unfold expect. unfold consume. unfold G at 1.
+  erewrite bind_R; [| apply (consume_n_at _ 1 (69 :: rest)); [ exact H | reflexivity | cbn [List.length]; lia ] ].
+  cbn [hd0]. chs. cbn [Z.eqb Pos.eqb]. stsimpl.
+  unfold dec_level. rewrite bind_modify. stsimpl. unfold ret, G.
+  replace (lv + 1 - 1) with lv by lia.
+  replace (p + 1 + Z.of_nat (List.length (nitems_enc items)) + 1) with (p + Z.of_nat (List.length (nitems_enc items)) + 2) by lia.
+  reflexivity.
+Qed.
+
+(* <type> ::= (r | V | K | P | R | O | C | G)* (<builtin> | S <seq-id> _ | <source-name> | <nested-name>) *)
+Inductive tbase := BBuiltin (c : Z) | BSubst (seq : list Z) | BSrc (id : list Z) | BNested (items : list nitem).
+Definition tbase_enc (b : tbase) : list Z :=
+  match b with
+  | BBuiltin c => [c]
+  | BSubst seq => 83 :: seq ++ [95]
+  | BSrc id => src id
+  | BNested items => 78 :: nitems_enc items ++ [69]
+  end.
+Definition tbase_okb (b : tbase) : bool :=
+  match b with
+  | BBuiltin c => is_builtin c
+  | BSubst seq => forallb seqchar seq
+  | BSrc id => ident_okb id
+  | BNested items => forallb nitem_okb items
+  end.
+Definition tbase_cost (b : tbase) : nat :=
+  match b with BNested items => List.length items + 5 | _ => 4 end.
+Definition tyqual_okb (q : Z) : bool := existsb (Z.eqb q) (str "rVKPROCG").
+Definition follow_ok (rest : list Z) : Prop := hd0 rest <> 73 /\ hd0 rest <> 66.
+
+Ltac sc_eval := repeat match goal with |- context [strchr_set ?a ?b] =>
+  let v := eval vm_compute in (strchr_set a b) in change (strchr_set a b) with v end.
+
+Lemma sc_digit : forall set d, 48 <= d <= 57 -> forallb (fun x => (x <? 48) || (57 <? x)) set = true ->
+  strchr_set set d = false.
+Proof.
+  intros set d Hd H. unfold strchr_set. rwf (d =? 0). cbn [orb].
+  induction set as [| x set IH]; [ reflexivity |]. cbn [forallb existsb] in *.
+  apply andb_prop in H. destruct H as [Hx H]. rwf (d =? x). cbn [orb]. apply IH. exact H.
+Qed.
+
+Lemma type_base_at : forall b k p o lv t tp fnm rest, t <> 0 ->
+  At p (tbase_enc b ++ rest) -> tbase_okb b = true -> follow_ok rest -> (tbase_cost b <= k)%nat ->
+  run true s 0 k (LType (-1)) (G p o lv t tp fnm) = R 0 (G (p + Z.of_nat (List.length (tbase_enc b))) o lv t tp fnm).
+Proof.
+  intros b k p o lv t tp fnm rest Ht H Hok [HfI HfB] Hk.
+  destruct k as [| k]; [ destruct b; cbn [tbase_cost] in Hk; lia |].
+  change (run true s 0 (S k) (LType (-1))) with (type_loop true s 0 (run true s 0 k) (-1)).
+  unfold type_loop. unfold G at 1.
+  destruct b as [c | seq | id | items]; cbn [tbase_enc tbase_okb tbase_cost app List.length] in *.
+  - (* builtin *)
+    destruct (builtin_facts c Hok) as [F1 [F2 [F3 [F4 [F5 [F6 [F7 [F8 [F9 [F10 [F11 [F12 [F13 F14]]]]]]]]]]]]].
+    pose proof (At_lt _ _ _ H).
+    rewrite bind_eof. stsimpl. rwf (p >=? L). cbn [Z.eqb].
+    erewrite bind_R; [| apply (curr_at _ (c :: rest)); [ exact H | reflexivity ] ].
+    cbn [hd0]. rewrite F1, F2, F3, F4, F5, F6, F7, F8, F9, F10, F11, F12.
+    unfold is_builtin in Hok. rewrite Hok. unfold consume.
+    erewrite bind_R; [| apply (consume_n_at _ 1 (c :: rest)); [ exact H | reflexivity | cbn [List.length]; lia ] ].
+    reflexivity.
+  - (* substitution *)
+    rewrite <- app_assoc in H. cbn [app] in H. pose proof (At_lt _ _ _ H).
+    rewrite bind_eof. stsimpl. rwf (p >=? L). cbn [Z.eqb].
+    erewrite bind_R; [| apply (curr_at _ (83 :: seq ++ 95 :: rest)); [ exact H | reflexivity ] ].
+    cbn [hd0]. sc_eval. chs. cbn [Z.eqb Pos.eqb].
+    erewrite bind_R; [| apply (peek1_at _ 83 (seq ++ 95 :: rest)); [ exact H | reflexivity ] ].
+    fold (G p o lv t tp fnm).
+    erewrite bind_R; [| apply (subst_seq_at p o lv t tp fnm seq rest); assumption ].
+    assert (H2 : At (p + Z.of_nat (List.length seq) + 2) rest).
+    { replace (p + Z.of_nat (List.length seq) + 2) with (p + Z.of_nat (List.length (83 :: seq ++ [95])))
+        by (cbn [List.length]; rewrite app_length; cbn [List.length]; lia).
+      apply At_app. cbn [app]. rewrite <- app_assoc. exact H. }
+    unfold G at 1.
+    erewrite bind_R; [| apply (curr_at _ rest); [ exact H2 | reflexivity ] ].
+    assert (Hc1 : (hd0 (seq ++ 95 :: rest) =? 116) = false).
+    { destruct seq as [| c sq]; [ reflexivity |]. cbn [app hd0]. cbn [forallb] in Hok. apply andb_prop in Hok.
+      destruct Hok as [Hc _]. unfold seqchar, isdigit, isupper in Hc. lia. }
+    cbn [Z.eqb]. rewrite Hc1. cbn [andb]. rewrite bind_ret.
+    erewrite bind_R; [| apply (curr_at _ rest); [ exact H2 | reflexivity ] ].
+    rwf (hd0 rest =? 73). unfold ret, G. f_equal. f_equal. rewrite app_length. cbn [List.length]. lia.
+  - (* a class in the global namespace *)
+    pose proof (src_hd_digit id rest Hok) as Hd.
+    destruct (src id ++ rest) as [| d tl] eqn:E.
+    { exfalso. unfold src in E. destruct (hd0_dec_digit _ (id ++ rest) (ident_len id Hok)) as [_ Hne].
+      rewrite <- app_assoc in E. destruct (dec (Z.of_nat (List.length id))); [ contradiction | discriminate ]. }
+    cbn [hd0] in Hd. pose proof (At_lt _ _ _ H).
+    rewrite bind_eof. stsimpl. rwf (p >=? L). cbn [Z.eqb].
+    erewrite bind_R; [| apply (curr_at _ (d :: tl)); [ exact H | reflexivity ] ].
+    cbn [hd0].
+    rewrite (sc_digit (str "rVK") d Hd eq_refl). rewrite (sc_digit (str "PROCG") d Hd eq_refl). chs.
+    rwf (d =? 70). rwf (d =? 84). rwf (d =? 65). rwf (d =? 77). rwf (d =? 68). rwf (d =? 83).
+    rwf (d =? 117). rwf (d =? 85). rwf (d =? 73).
+    unfold isdigit. rwt (48 <=? d). rwt (d <=? 57). cbn [andb orb].
+    destruct k as [| k1]; [ lia |]. destruct k1 as [| k2]; [ lia |].
+    change (run true s 0 (S (S k2)) FName) with (dd_name true s 0 (run true s 0 (S k2))).
+    unfold dd_name.
+    erewrite bind_R; [| apply (curr_at _ (d :: tl)); [ exact H | reflexivity ] ].
+    rewrite bind_eof. stsimpl. rwf (p >=? L). cbn [hd0 Z.eqb]. chs. rwf (d =? 78). rwf (d =? 90). rwf (d =? 83).
+    rewrite <- E in H. fold (G p o lv t tp fnm).
+    erewrite bind_R; [| apply (unq_skip k2 p o lv t tp fnm id rest); assumption ].
+    cbn [Z.ltb Z.compare]. unfold G at 1.
+    erewrite bind_R; [| apply (curr_at _ rest); [ apply At_src_tail; exact H | reflexivity ] ].
+    rwf (hd0 rest =? 73). reflexivity.
+  - (* nested name *)
+    rewrite <- app_assoc in H. cbn [app] in H. pose proof (At_lt _ _ _ H).
+    rewrite bind_eof. stsimpl. rwf (p >=? L). cbn [Z.eqb].
+    erewrite bind_R; [| apply (curr_at _ (78 :: nitems_enc items ++ 69 :: rest)); [ exact H | reflexivity ] ].
+    cbn [hd0]. sc_eval. chs. cbn [Z.eqb Pos.eqb]. unfold isdigit. cbn [Z.leb Z.compare Pos.compare Pos.compare_cont andb orb].
+    destruct k as [| k1]; [ lia |].
+    change (run true s 0 (S k1) FName) with (dd_name true s 0 (run true s 0 k1)).
+    unfold dd_name.
+    erewrite bind_R; [| apply (curr_at _ (78 :: nitems_enc items ++ 69 :: rest)); [ exact H | reflexivity ] ].
+    rewrite bind_eof. stsimpl. rwf (p >=? L). cbn [hd0 Z.eqb]. chs. cbn [Z.eqb Pos.eqb].
+    fold (G p o lv t tp fnm).
+    rewrite (nested_name_skip items k1 p o lv t tp fnm rest Ht H Hok ltac:(lia)).
+    f_equal. unfold G. f_equal. rewrite app_length. cbn [List.length]. lia.
+Qed.
+
+Lemma type_quals_at : forall quals b k p o lv t tp fnm rest, t <> 0 ->
+  At p (quals ++ tbase_enc b ++ rest) -> forallb tyqual_okb quals = true -> tbase_okb b = true ->
+  follow_ok rest -> (List.length quals + tbase_cost b <= k)%nat ->
+  run true s 0 k (LType (-1)) (G p o lv t tp fnm) =
+  R 0 (G (p + Z.of_nat (List.length quals) + Z.of_nat (List.length (tbase_enc b))) o lv t tp fnm).
+Proof.
+  induction quals as [| q qs IH]; intros b k p o lv t tp fnm rest Ht H Hq Hb Hf Hk.
+  - cbn [app List.length Nat.add] in *. replace (p + Z.of_nat 0) with p by lia.
+    apply (type_base_at b k p o lv t tp fnm rest); assumption.
+  - cbn [forallb] in Hq. apply andb_prop in Hq. destruct Hq as [Hq Hqs]. cbn [app List.length] in *.
+    destruct k as [| k]; [ lia |].
+    change (run true s 0 (S k) (LType (-1))) with (type_loop true s 0 (run true s 0 k) (-1)).
+    unfold type_loop. unfold G at 1. pose proof (At_lt _ _ _ H) as Hlt.
+    rewrite bind_eof. stsimpl. rwf (p >=? L). cbn [Z.eqb].
+    erewrite bind_R; [| apply (curr_at _ (q :: qs ++ tbase_enc b ++ rest)); [ exact H | reflexivity ] ].
+    cbn [hd0].
+    assert (Hnext : run true s 0 k (LType (-1)) (G (p + 1) o lv t tp fnm) =
+                    R 0 (G (p + Z.of_nat (S (List.length qs)) + Z.of_nat (List.length (tbase_enc b))) o lv t tp fnm)).
+    { rewrite (IH b k (p + 1) o lv t tp fnm rest Ht (At_cons _ _ _ H) Hqs Hb Hf ltac:(lia)).
+      f_equal. unfold G. f_equal. lia. }
+    assert (Hcons : consume s 0 (G p o lv t tp fnm) = R q (G (p + 1) o lv t tp fnm)).
+    { unfold consume. rewrite (consume_n_at _ 1 (q :: qs ++ tbase_enc b ++ rest)); [ reflexivity | exact H | reflexivity | cbn [List.length]; lia ]. }
+    assert (Hdq : strchr_set (str "rVKRO") q = true ->
+                  dd_qualifier s 0 (G p o lv t tp fnm) = R 0 (G (p + 1) o lv t tp fnm)).
+    { intros Hs. unfold dd_qualifier. unfold G at 1.
+      erewrite bind_R; [| apply (curr_at _ (q :: qs ++ tbase_enc b ++ rest)); [ exact H | reflexivity ] ].
+      rewrite bind_eof. stsimpl. rwf (p >=? L). cbn [Z.eqb hd0]. rewrite Hs.
+      fold (G p o lv t tp fnm). erewrite bind_R; [| exact Hcons ]. reflexivity. }
+    fold (G p o lv t tp fnm).
+    unfold tyqual_okb in Hq. cbn in Hq.
+    repeat (apply orb_prop in Hq; destruct Hq as [Hq | Hq]); try discriminate; apply Z.eqb_eq in Hq; subst q; sc_eval; cbv iota.
+    1-3: (erewrite bind_R; [| apply Hdq; reflexivity ]; exact Hnext).
+    all: erewrite bind_R; [| exact Hcons ]; exact Hnext.
+Qed.
+
+Record ty := mkty { ty_quals : list Z; ty_base : tbase }.
+Definition ty_enc (t : ty) : list Z := ty_quals t ++ tbase_enc (ty_base t).
+Definition ty_okb (t : ty) : bool := forallb tyqual_okb (ty_quals t) && tbase_okb (ty_base t).
+Definition ty_cost (t : ty) : nat := List.length (ty_quals t) + tbase_cost (ty_base t) + 1.
+
+(* dd_type on one <type> *)
+Lemma type_at : forall ty0 k p o lv t tp fnm rest, 0 <= t ->
+  At p (ty_enc ty0 ++ rest) -> ty_okb ty0 = true -> follow_ok rest -> (ty_cost ty0 <= k)%nat ->
+  run true s 0 k FType (G p o lv t tp fnm) = R 0 (G (p + Z.of_nat (List.length (ty_enc ty0))) o lv t tp fnm).
+Proof.
+  intros [quals b] k p o lv t tp fnm rest Ht H Hok Hf Hk. unfold ty_enc, ty_okb, ty_cost in *. cbn [ty_quals ty_base] in *.
+  apply andb_prop in Hok. destruct Hok as [Hq Hb]. rewrite <- app_assoc in H.
+  destruct k as [| k]; [ lia |].
+  change (run true s 0 (S k) FType) with (dd_type (run true s 0 k)).
+  unfold dd_type. unfold G at 1.
+  assert (Hlt : p < L).
+  { destruct H as [_ [_ H2]]. repeat rewrite app_length in H2.
+    assert (1 <= List.length (tbase_enc b))%nat.
+    { destruct b; cbn [tbase_enc List.length]; try lia. unfold src. rewrite app_length.
+      cbn [tbase_okb] in Hb. pose proof (ident_len id Hb). lia. }
+    lia. }
+  rewrite bind_eof. stsimpl. rwf (p >=? L). cbn [Z.eqb].
+  unfold inc_typ, inc_level. rewrite !bind_modify. stsimpl.
+  fold (G p o (lv + 1) (t + 1) tp fnm).
+  erewrite bind_R; [| apply (type_quals_at quals b k p o (lv + 1) (t + 1) tp fnm rest); try assumption; lia ].
+  unfold dec_level, dec_typ. rewrite !bind_modify. unfold ret, G. stsimpl.
+  replace (t + 1 - 1) with t by lia. replace (lv + 1 - 1) with lv by lia.
+  rewrite app_length. f_equal. f_equal. lia.
+Qed.
+
+(* first character of a type *)
+Definition tyhd (h : Z) : bool := tyqual_okb h || is_builtin h || (h =? 83) || isdigit h || (h =? 78).
+Lemma ty_enc_hd : forall t rest, ty_okb t = true -> tyhd (hd0 (ty_enc t ++ rest)) = true.
+Proof.
+  intros [quals b] rest H. unfold ty_okb, ty_enc in *. cbn [ty_quals ty_base] in *.
+  apply andb_prop in H. destruct H as [Hq Hb]. unfold tyhd.
+  destruct quals as [| q qs].
+  - cbn [app]. destruct b as [c | seq | id | items]; cbn [tbase_enc tbase_okb app hd0] in *.
+    + rewrite Hb. rewrite orb_true_r. reflexivity.
+    + rewrite !orb_true_r. reflexivity.
+    + pose proof (src_hd_digit id rest Hb) as Hd. unfold isdigit. rwt (48 <=? hd0 (src id ++ rest)).
+      rwt (hd0 (src id ++ rest) <=? 57). cbn [andb]. rewrite !orb_true_r. reflexivity.
+    + rewrite !orb_true_r. reflexivity.
+  - cbn [app hd0 forallb] in *. apply andb_prop in Hq. destruct Hq as [Hq _]. rewrite Hq. reflexivity.
+Qed.
+Lemma tyhd_facts : forall h, tyhd h = true -> strchr_set (str "E.@") h = false /\ h <> 73 /\ h <> 66.
+Proof.
+  intros h H. unfold tyhd, tyqual_okb, is_builtin in H. cbn in H.
+  repeat (apply orb_prop in H; destruct H as [H | H]); try discriminate;
+    try (apply Z.eqb_eq in H; subst h; repeat split; try reflexivity; discriminate).
+  unfold isdigit in H. assert (Hd : 48 <= h <= 57) by lia.
+  split; [ apply (sc_digit (str "E.@") h Hd eq_refl) | lia ].
+Qed.
+
+Definition tys_enc (tys : list ty) : list Z := List.concat (map ty_enc tys).
+Definition tys_cost (tys : list ty) : nat := fold_right (fun t n => ty_cost t + n)%nat 0%nat tys.
+
+Lemma tys_follow : forall tys, forallb ty_okb tys = true -> follow_ok (tys_enc tys).
+Proof.
+  intros tys H. destruct tys as [| t tys]; [ unfold follow_ok; cbn; split; discriminate |].
+  cbn [forallb] in H. apply andb_prop in H. destruct H as [Ht _].
+  unfold tys_enc. cbn [map List.concat].
+  destruct (tyhd_facts _ (ty_enc_hd t (List.concat (map ty_enc tys)) Ht)) as [_ [A B]]. split; assumption.
+Qed.
+
+(* the parameter loop of dd_encoding over a list of types that ends the string *)
+Lemma enc_types_at : forall tys k p x,
+  At p (tys_enc tys) -> forallb ty_okb tys = true -> (tys_cost tys + List.length tys + 2 <= k)%nat ->
+  run true s 0 k LEncTypes (NS p (Some x) 1 false) = R 0 (NS (p + Z.of_nat (List.length (tys_enc tys))) (Some x) 1 false).
+Proof.
+  induction tys as [| t tys IH]; intros k p x H Hok Hk.
+  - destruct k as [| k]; [ cbn in Hk; lia |].
+    cbn [tys_enc map List.concat List.length]. cbn [run body]. unfold enc_types_loop, NS.
+    rewrite bind_eof. stsimpl. destruct H as [H0 [H1 H2]]. cbn [tys_enc map List.concat List.length] in H2.
+    rwt (p >=? L).
+    erewrite bind_R; [| apply (curr_at _ []); [ split; [ exact H0 | split; [ exact H1 | exact H2 ] ] | reflexivity ] ].
+    cbn [Z.eqb orb]. replace (p + Z.of_nat 0) with p by lia. reflexivity.
+  - cbn [forallb] in Hok. apply andb_prop in Hok. destruct Hok as [Ht Htys].
+    cbn [tys_cost fold_right List.length] in Hk. fold (tys_cost tys) in Hk.
+    destruct k as [| k]; [ lia |].
+    unfold tys_enc in *. cbn [map List.concat] in *.
+    cbn [run body]. unfold enc_types_loop. unfold NS at 1.
+    destruct (tyhd_facts _ (ty_enc_hd t (List.concat (map ty_enc tys)) Ht)) as [Fe _].
+    assert (Hlt : p < L).
+    { pose proof (ty_enc_hd t (List.concat (map ty_enc tys)) Ht) as Hh.
+      destruct (ty_enc t ++ List.concat (map ty_enc tys)) as [| c r] eqn:E; [ discriminate |]. apply (At_lt _ _ _ H). }
+    rewrite bind_eof. stsimpl. rwf (p >=? L).
+    erewrite bind_R; [| apply (curr_at _ (ty_enc t ++ List.concat (map ty_enc tys))); [ exact H | reflexivity ] ].
+    cbn [Z.eqb orb]. rewrite Fe.
+    change (mkst p L (Some x) 0 1 0 false false false false) with (G p (Some x) 1 0 0 false).
+    erewrite bind_R; [| apply (type_at t k p (Some x) 1 0 0 false (List.concat (map ty_enc tys))); try assumption; try lia;
+                        apply (tys_follow tys Htys) ].
+    cbn [Z.ltb Z.compare].
+    change (G (p + Z.of_nat (List.length (ty_enc t))) (Some x) 1 0 0 false)
+      with (NS (p + Z.of_nat (List.length (ty_enc t))) (Some x) 1 false).
+    rewrite (IH k _ x (At_app _ _ _ H) Htys ltac:(lia)).
+    f_equal. unfold NS. f_equal. rewrite app_length. lia.
+Qed.
+
+(* ---- the same with general parameter types *)
+Lemma encoding_generic_ty : forall c0 tl x pe tys F3,
+  At 0 (95 :: 90 :: c0 :: tl) -> c0 <> 84 -> c0 <> 71 ->
+  run true s 0 (S (S F3)) FName (NS 2 None 1 true) = R 0 (NS pe (Some x) 1 false) ->
+  At pe (tys_enc tys) -> forallb ty_okb tys = true -> (tys_cost tys + List.length tys + 1 <= F3)%nat ->
+  run true s 0 (S (S (S F3))) FEncoding (st0 L) = R 0 (NS L (Some x) 0 false).
+Proof.
+  intros c0 tl x pe tys F3 H0 HcT HcG Hname Hpe Hpar HF.
+  pose proof (At_cons _ _ _ H0) as H1. pose proof (At_cons _ _ _ H1) as H2. cbn [Z.add Pos.add] in H1, H2.
+  change (run true s 0 (S (S (S F3))) FEncoding) with (dd_encoding s 0 (run true s 0 (S (S F3)))).
+  unfold dd_encoding, st0.
+  pose proof (At_lt _ _ _ H0) as HL0.
+  rewrite bind_eof. stsimpl. rwf (0 >=? L). cbn [Z.eqb].
+  rewrite bind_gets. stsimpl. cbn [Z.eqb].
+  erewrite bind_R; [| apply (consume_n_at _ 2 (95 :: 90 :: c0 :: tl)); [ exact H0 | reflexivity | cbn [List.length]; lia ] ].
+  stsimpl. cbn [Z.add]. unfold inc_level. rewrite bind_modify. stsimpl. cbn [Z.add].
+  erewrite bind_R; [| apply (curr_at _ (c0 :: tl)); [ exact H2 | reflexivity ] ].
+  cbn [hd0]. chs. rwf (c0 =? 84). rwf (c0 =? 71). cbn [orb].
+  fold (NS 2 None 1 true). erewrite bind_R; [| exact Hname ].
+  cbn [Z.ltb Z.compare].
+  erewrite bind_R.
+  2:{ apply (enc_types_at tys (S (S F3)) pe x Hpe Hpar). lia. }
+  assert (HpeL : pe + Z.of_nat (List.length (tys_enc tys)) = L) by (destruct Hpe as [_ [_ HH]]; exact HH).
+  rewrite HpeL.
+  assert (Hend : At L []).
+  { rewrite <- HpeL. replace (tys_enc tys) with (tys_enc tys ++ []) in Hpe by apply app_nil_r. apply (At_app _ (tys_enc tys) []). exact Hpe. }
+  unfold NS at 1.
+  erewrite bind_R; [| apply (curr_at _ []); [ exact Hend | reflexivity ] ].
+  cbn [hd0]. chs. cbn [Z.eqb]. rewrite bind_ret.
+  erewrite bind_R; [| apply (curr_at _ []); [ exact Hend | reflexivity ] ].
+  cbn [hd0 Z.eqb]. rewrite bind_ret.
+  unfold dec_level. rewrite bind_modify. stsimpl. reflexivity.
+Qed.
+
+Lemma tyencoding_at : forall quals c cs l tys F,
+  s = str "_ZN" ++ quals ++ tsrcs (c :: cs) ++ last_enc l ++ 69 :: tys_enc tys ->
+  forallb qual_okb quals = true ->
+  forallb tcomp_okb (c :: cs) = true -> last_okb l = true -> forallb ty_okb tys = true ->
+  no_dollar (tsrcs (c :: cs) ++ last_enc l ++ 69 :: tys_enc tys) -> L <= INT_MAX ->
+  (List.length quals + tcosts (c :: cs) + tys_cost tys + List.length tys + 10 <= F)%nat ->
+  run true s 0 F FEncoding (st0 L) = R 0 (NS L (Some (last_out (join_sep (map fst (c :: cs))) l)) 0 false).
+Proof.
+  intros quals c cs l tys F Hs Hq Hok Hl Hpar Hnd HL HF.
+  set (comps := c :: cs) in *.
+  set (body := quals ++ tsrcs comps ++ last_enc l ++ 69 :: tys_enc tys) in *.
+  assert (H0 : At 0 (95 :: 90 :: 78 :: body)).
+  { unfold At. split; [ lia |]. split; [ unfold suffix; cbn [Z.add Z.to_nat skipn]; rewrite Hs; reflexivity |].
+    unfold flen. rewrite Hs. cbn [str app List.length]. lia. }
+  pose proof (At_cons _ _ _ H0) as H1. pose proof (At_cons _ _ _ H1) as H2. cbn [Z.add Pos.add] in H1, H2.
+  destruct F as [| F1]; [ lia |]. destruct F1 as [| F2]; [ lia |]. destruct F2 as [| F3]; [ lia |].
+  set (pq := 3 + Z.of_nat (List.length quals)).
+  set (pe := pq + Z.of_nat (List.length (tsrcs comps)) + Z.of_nat (List.length (last_enc l)) + 1).
+  pose proof (At_cons _ _ _ H2) as H3. cbn [Z.add Pos.add] in H3.
+  assert (Hpq : At pq (tsrcs comps ++ last_enc l ++ 69 :: tys_enc tys)) by (apply (At_app _ quals); exact H3).
+  assert (Hpe : At pe (tys_enc tys)).
+  { unfold pe. replace (pq + Z.of_nat (List.length (tsrcs comps)) + Z.of_nat (List.length (last_enc l)) + 1)
+      with (pq + Z.of_nat (List.length (tsrcs comps)) + Z.of_nat (List.length (last_enc l)) + Z.of_nat (List.length [69])) by (cbn [List.length]; lia).
+    apply (At_app _ [69] (tys_enc tys)). apply (At_app _ (last_enc l)). apply (At_app _ (tsrcs comps)). exact Hpq. }
+  apply (encoding_generic_ty 78 body (last_out (join_sep (map fst comps)) l) pe tys F3 H0); try lia; try assumption.
+  change (run true s 0 (S (S F3)) FName) with (dd_name true s 0 (run true s 0 (S F3))).
+  unfold dd_name. unfold NS at 1.
+  erewrite bind_R; [| apply (curr_at _ (78 :: body)); [ exact H2 | reflexivity ] ].
+  pose proof (At_lt _ _ _ H2).
+  rewrite bind_eof. stsimpl. rwf (2 >=? L). cbn [hd0]. chs. cbn [Z.eqb Pos.eqb].
+  change (run true s 0 (S F3) FNestedName) with (dd_nested_name s 0 (run true s 0 F3)).
+  unfold dd_nested_name.
+  rewrite bind_eof. stsimpl. rwf (2 >=? L). cbn [Z.eqb].
+  unfold expect at 1. unfold consume.
+  erewrite bind_R; [| apply (consume_n_at _ 1 (78 :: body)); [ exact H2 | reflexivity | cbn [List.length]; lia ] ].
+  cbn [hd0]. chs. cbn [Z.eqb Pos.eqb]. stsimpl.
+  unfold inc_level. rewrite bind_modify. stsimpl. cbn [Z.add Pos.add].
+  fold (NS 3 None 2 true).
+  erewrite bind_R.
+  2:{ replace F3 with (List.length quals + (F3 - List.length quals))%nat by lia.
+      rewrite (nested_quals quals _ 3 None 2 true (tsrcs comps ++ last_enc l ++ 69 :: tys_enc tys)); [| exact H3 | exact Hq |].
+      - fold pq.
+        apply (nested_tcomps comps l _ pq None 2 true (tys_enc tys) (join_sep (map fst comps))); try assumption.
+        + unfold comps. cbn [map]. apply out_after_start.
+        + reflexivity.
+        + lia.
+      - unfold comps, tsrcs. cbn [map List.concat]. unfold tenc at 1. unfold src.
+        destruct (hd0_dec_digit _ (fst c ++ targs_enc (snd c)) (ident_len (fst c) ltac:(
+          cbn [forallb] in Hok; apply andb_prop in Hok; destruct Hok as [Hc _]; unfold tcomp_okb in Hc;
+          apply andb_prop in Hc; tauto))) as [_ Hne].
+        destruct (dec (Z.of_nat (List.length (fst c)))); [ contradiction | discriminate ]. }
+  assert (H4 : At (pq + Z.of_nat (List.length (tsrcs comps)) + Z.of_nat (List.length (last_enc l))) (69 :: tys_enc tys)).
+  { apply (At_app _ (last_enc l)). apply (At_app _ (tsrcs comps)). exact Hpq. }
+  unfold expect. unfold consume. unfold NS at 1.
+  erewrite bind_R; [| apply (consume_n_at _ 1 (69 :: tys_enc tys)); [ exact H4 | reflexivity | cbn [List.length]; lia ] ].
+  cbn [hd0]. chs. cbn [Z.eqb Pos.eqb]. stsimpl.
+  unfold dec_level. rewrite bind_modify. stsimpl. unfold ret, NS. cbn [Z.sub Z.add Z.opp Z.pos_sub Pos.pred_double].
+  reflexivity.
+Qed.
+
+
+(* ================================================================ types with template arguments (mutually recursive grammar) *)
+(* cost-indexed grammar; the strings are the manglings themselves:
+     TyL : (r|V|K|P|R|O|C|G)* ( <builtin> | S <seq-id> _ [<targs>] | <source-name> [<targs>] | N <items> E )
+     TA  : empty | I <targ>* E             TAL : <targ>*  with <targ> ::= <type> | L <builtin> <number> E
+     NI  : ( <source-name> [<targs>] | S <seq-id> _ [<targs>] )*                                         *)
+Inductive TyL : nat -> list Z -> Prop :=
+| TL_builtin : forall c, is_builtin c = true -> TyL 1 [c]
+| TL_qual : forall q n u, tyqual_okb q = true -> TyL n u -> TyL (S n) (q :: u)
+| TL_subst : forall seq n ta, forallb seqchar seq = true -> TA n ta -> TyL (S n) (83 :: seq ++ 95 :: ta)
+| TL_src : forall id n ta, ident_okb id = true -> TA n ta -> TyL (n + 3) (src id ++ ta)
+| TL_nested : forall n items, NI n items -> TyL (n + 4) (78 :: items ++ [69])
+with TA : nat -> list Z -> Prop :=
+| TA_none : TA 0 []
+| TA_some : forall n l, TAL n l -> TA (n + 2) (73 :: l ++ [69])
+with TAL : nat -> list Z -> Prop :=
+| TAL_nil : TAL 1 []
+| TAL_ty : forall n m u l, TyL n u -> TAL m l -> TAL (n + m + 3) (u ++ l)
+| TAL_lit : forall c v m l, is_builtin c = true -> 0 < v < 1000000000 -> TAL m l ->
+            TAL (m + 6) (76 :: c :: dec v ++ 69 :: l)
+with NI : nat -> list Z -> Prop :=
+| NI_nil : NI 1 []
+| NI_src : forall id n ta m l, ident_okb id = true -> TA n ta -> NI m l -> NI (n + m + 2) (src id ++ ta ++ l)
+| NI_sub : forall seq n ta m l, forallb seqchar seq = true -> TA n ta -> NI m l ->
+           NI (n + m + 2) (83 :: seq ++ 95 :: ta ++ l).
+
+Scheme TyL_mut := Minimality for TyL Sort Prop
+  with TA_mut := Minimality for TA Sort Prop
+  with TAL_mut := Minimality for TAL Sort Prop
+  with NI_mut := Minimality for NI Sort Prop.
+Combined Scheme grammar_ind from TyL_mut, TA_mut, TAL_mut, NI_mut.
+
+Lemma TyL_hd : forall n u, TyL n u -> forall rest, tyhd (hd0 (u ++ rest)) = true.
+Proof.
+  intros n u H. induction H as [c Hc | q n u Hq H IH | seq n ta Hs Hta | id n ta Hid Hta | n items Hi]; intros rest;
+    unfold tyhd; cbn [app hd0].
+  - rewrite Hc. rewrite orb_true_r. reflexivity.
+  - rewrite Hq. reflexivity.
+  - rewrite !orb_true_r. reflexivity.
+  - rewrite <- app_assoc. pose proof (src_hd_digit id (ta ++ rest) Hid) as Hd. unfold isdigit.
+    rwt (48 <=? hd0 (src id ++ ta ++ rest)). rwt (hd0 (src id ++ ta ++ rest) <=? 57). cbn [andb]. rewrite !orb_true_r. reflexivity.
+  - rewrite !orb_true_r. reflexivity.
+Qed.
+Lemma TA_hd : forall n ta, TA n ta -> ta = [] \/ exists r, ta = 73 :: r.
+Proof. intros n ta H. destruct H; [ left; reflexivity | right; eexists; reflexivity ]. Qed.
+Lemma TAL_hd : forall m l, TAL m l -> forall rest, follow_ok (l ++ 69 :: rest) /\ (hd0 (l ++ 69 :: rest) = 69 \/ hd0 (l ++ 69 :: rest) = 76 \/ tyhd (hd0 (l ++ 69 :: rest)) = true).
+Proof.
+  intros m l H rest. destruct H as [| n m u l Hu Hl | c v m l Hc Hv Hl ].
+  - cbn. split; [ split; discriminate | left; reflexivity ].
+  - rewrite <- app_assoc. pose proof (TyL_hd n u Hu (l ++ 69 :: rest)) as Hh.
+    destruct (tyhd_facts _ Hh) as [_ [A B]]. split; [ split; assumption | right; right; exact Hh ].
+  - cbn [app hd0]. split; [ split; discriminate | right; left; reflexivity ].
+Qed.
+Lemma NI_hd : forall m l, NI m l -> forall rest,
+  let h := hd0 (l ++ 69 :: rest) in (48 <= h <= 57) \/ h = 83 \/ h = 69.
+Proof.
+  intros m l H rest. destruct H as [| id n ta m l Hid Hta Hl | seq n ta m l Hs Hta Hl ]; cbn zeta.
+  - right; right; reflexivity.
+  - left. rewrite <- !app_assoc. apply src_hd_digit. exact Hid.
+  - right; left. reflexivity.
+Qed.
+
+Lemma number_lit_at : forall st v rest, At (pos st) (dec v ++ 69 :: rest) -> len st = L -> 0 < v < 1000000000 ->
+  exists r, dd_number s 0 st = R r (set_pos st (pos st + Z.of_nat (List.length (dec v)))).
+Proof.
+  intros st v rest H Hl Hv. eexists. apply (number_at st v (69 :: rest) H Hl Hv). reflexivity.
+Qed.
+
+Definition P_TyL (n : nat) (u : list Z) : Prop :=
+  forall k p o lv t tp fnm rest, 0 < t -> At p (u ++ rest) -> follow_ok rest -> (n <= k)%nat ->
+  run true s 0 k (LType (-1)) (G p o lv t tp fnm) = R 0 (G (p + Z.of_nat (List.length u)) o lv t tp fnm).
+Definition P_TA (n : nat) (ta : list Z) : Prop :=
+  forall k p o lv t tp fnm rest, 0 <= t -> ta <> [] -> At p (ta ++ rest) -> (n <= k)%nat ->
+  run true s 0 k FTemplateArgs (G p o lv t tp fnm) = R 0 (G (p + Z.of_nat (List.length ta)) o lv t tp fnm).
+Definition P_TAL (n : nat) (l : list Z) : Prop :=
+  forall k p o lv t tp fnm rest, 0 <= t -> At p (l ++ 69 :: rest) -> (n <= k)%nat ->
+  run true s 0 k (LUntilE FTemplateArg) (G p o lv t tp fnm) = R 0 (G (p + Z.of_nat (List.length l)) o lv t tp fnm).
+Definition P_NI (n : nat) (l : list Z) : Prop :=
+  forall k p o lv t tp fnm rest, 0 < t -> At p (l ++ 69 :: rest) -> (n <= k)%nat ->
+  run true s 0 k (LNested 0) (G p o lv t tp fnm) = R 0 (G (p + Z.of_nat (List.length l)) o lv t tp fnm).
+
+(* after an optional <targs>: `if (dd_curr(dd) == 'I') ret = dd_template_args(dd)` *)
+Lemma targs_cont : forall n ta k p o lv t tp fnm rest v, TA n ta -> P_TA n ta -> 0 <= t ->
+  At p (ta ++ rest) -> hd0 rest <> 73 -> (n <= k)%nat -> (v = 0) ->
+  (c <- curr s 0 ;; if c =? 73 then run true s 0 k FTemplateArgs else ret v) (G p o lv t tp fnm) =
+  R 0 (G (p + Z.of_nat (List.length ta)) o lv t tp fnm).
+Proof.
+  intros n ta k p o lv t tp fnm rest v Hta HP Ht H Hr Hk Hv. subst v.
+  unfold G at 1.
+  erewrite bind_R; [| apply (curr_at _ (ta ++ rest)); [ exact H | reflexivity ] ].
+  destruct (TA_hd n ta Hta) as [E | [r E]]; subst ta.
+  - cbn [app List.length]. rwf (hd0 rest =? 73). replace (p + Z.of_nat 0) with p by lia. reflexivity.
+  - cbn [app hd0]. cbn [Z.eqb Pos.eqb]. fold (G p o lv t tp fnm).
+    apply (HP k p o lv t tp fnm rest Ht ltac:(discriminate) H Hk).
+Qed.
+
+
+Lemma P_builtin : forall c, is_builtin c = true -> P_TyL 1 [c].
+Proof.
+  intros c Hc k p o lv t tp fnm rest Ht H [HfI HfB] Hk.
+  destruct k as [| k]; [ lia |].
+  change (run true s 0 (S k) (LType (-1))) with (type_loop true s 0 (run true s 0 k) (-1)).
+  unfold type_loop. unfold G at 1. cbn [app] in H.
+  destruct (builtin_facts c Hc) as [F1 [F2 [F3 [F4 [F5 [F6 [F7 [F8 [F9 [F10 [F11 [F12 [F13 F14]]]]]]]]]]]]].
+  pose proof (At_lt _ _ _ H).
+  rewrite bind_eof. stsimpl. rwf (p >=? L). cbn [Z.eqb].
+  erewrite bind_R; [| apply (curr_at _ (c :: rest)); [ exact H | reflexivity ] ].
+  cbn [hd0]. rewrite F1, F2, F3, F4, F5, F6, F7, F8, F9, F10, F11, F12.
+  unfold is_builtin in Hc. rewrite Hc. unfold consume.
+  erewrite bind_R; [| apply (consume_n_at _ 1 (c :: rest)); [ exact H | reflexivity | cbn [List.length]; lia ] ].
+  reflexivity.
+Qed.
+
+(* dd_type around the type loop *)
+Lemma type_wrap : forall n u, P_TyL n u -> u <> [] ->
+  forall k p o lv t tp fnm rest, 0 <= t -> At p (u ++ rest) -> follow_ok rest -> (S n <= k)%nat ->
+  run true s 0 k FType (G p o lv t tp fnm) = R 0 (G (p + Z.of_nat (List.length u)) o lv t tp fnm).
+Proof.
+  intros n u HP Hne k p o lv t tp fnm rest Ht H Hf Hk.
+  destruct k as [| k]; [ lia |].
+  change (run true s 0 (S k) FType) with (dd_type (run true s 0 k)).
+  unfold dd_type. unfold G at 1.
+  assert (Hlt : p < L).
+  { destruct u as [| c r]; [ contradiction |]. cbn [app] in H. apply (At_lt _ _ _ H). }
+  rewrite bind_eof. stsimpl. rwf (p >=? L). cbn [Z.eqb].
+  unfold inc_typ, inc_level. rewrite !bind_modify. stsimpl.
+  fold (G p o (lv + 1) (t + 1) tp fnm).
+  erewrite bind_R; [| apply (HP k p o (lv + 1) (t + 1) tp fnm rest); [ lia | exact H | exact Hf | lia ] ].
+  unfold dec_level, dec_typ. rewrite !bind_modify. unfold ret, G. stsimpl.
+  replace (t + 1 - 1) with t by lia. replace (lv + 1 - 1) with lv by lia. reflexivity.
+Qed.
+
+Lemma TyL_nonempty : forall n u, TyL n u -> u <> [].
+Proof.
+  intros n u H. destruct H; try discriminate.
+  unfold src. destruct (hd0_dec_digit _ (id ++ ta) (ident_len id H)) as [_ Hne].
+  destruct (dec (Z.of_nat (List.length id))); [ contradiction | discriminate ].
+Qed.
+
+(* optional <targs> inside a nested name, then the rest of the loop *)
+Lemma ni_cont : forall n ta m l k p o lv t tp fnm rest, TA n ta -> P_TA n ta -> P_NI m l -> 0 < t ->
+  At p (ta ++ l ++ 69 :: rest) ->
+  (let h := hd0 (l ++ 69 :: rest) in (48 <= h <= 57) \/ h = 83 \/ h = 69) -> (n + m + 1 <= k)%nat ->
+  run true s 0 k (LNested 0) (G p o lv t tp fnm) =
+  R 0 (G (p + Z.of_nat (List.length ta) + Z.of_nat (List.length l)) o lv t tp fnm).
+Proof.
+  intros n ta m l k p o lv t tp fnm rest Hta HPa HPl Ht H Hh Hk.
+  destruct (TA_hd n ta Hta) as [E | [r E]]; subst ta.
+  - cbn [app List.length] in *. replace (p + Z.of_nat 0) with p by lia.
+    apply (HPl k p o lv t tp fnm rest Ht H). lia.
+  - destruct k as [| k]; [ lia |].
+    change (run true s 0 (S k) (LNested 0)) with (nested_loop true s 0 (run true s 0 k) 0).
+    unfold nested_loop. unfold G at 1. cbn [app] in H.
+    erewrite bind_R; [| apply (curr_at _ (73 :: r ++ l ++ 69 :: rest)); [ exact H | reflexivity ] ].
+    rewrite bind_eof. stsimpl. pose proof (At_lt _ _ _ H) as Hlt. rwf (p >=? L). cbn [hd0]. chs.
+    cbn [Z.eqb Pos.eqb orb negb].
+    erewrite bind_R; [| apply (peek1_at _ 73 (r ++ l ++ 69 :: rest)); [ exact H | reflexivity ] ].
+    cbn [andb orb]. unfold islower, isdigit. cbn [Z.leb Z.compare Pos.compare Pos.compare_cont andb orb].
+    fold (G p o lv t tp fnm).
+    change (73 :: r ++ l ++ 69 :: rest) with ((73 :: r) ++ l ++ 69 :: rest) in H.
+    erewrite bind_R; [| apply (HPa k p o lv t tp fnm (l ++ 69 :: rest)); [ lia | discriminate | exact H | lia ] ].
+    rewrite (HPl k _ o lv t tp fnm rest Ht (At_app _ _ _ H) ltac:(lia)). reflexivity.
+Qed.
+
+Lemma grammar_walk :
+  (forall n u, TyL n u -> P_TyL n u) /\ (forall n ta, TA n ta -> P_TA n ta) /\
+  (forall n l, TAL n l -> P_TAL n l) /\ (forall n l, NI n l -> P_NI n l).
+Proof.
+  apply grammar_ind.
+  - (* builtin *)
+    intros c Hc. apply P_builtin. exact Hc.
+  - (* qualifier *)
+    intros q n u Hq Hu IH k p o lv t tp fnm rest Ht H Hf Hk. cbn [app List.length] in *.
+    destruct k as [| k]; [ lia |].
+    change (run true s 0 (S k) (LType (-1))) with (type_loop true s 0 (run true s 0 k) (-1)).
+    unfold type_loop. unfold G at 1. pose proof (At_lt _ _ _ H) as Hlt.
+    rewrite bind_eof. stsimpl. rwf (p >=? L). cbn [Z.eqb].
+    erewrite bind_R; [| apply (curr_at _ (q :: u ++ rest)); [ exact H | reflexivity ] ].
+    cbn [hd0].
+    assert (Hnext : run true s 0 k (LType (-1)) (G (p + 1) o lv t tp fnm) =
+                    R 0 (G (p + Z.of_nat (S (List.length u))) o lv t tp fnm)).
+    { rewrite (IH k (p + 1) o lv t tp fnm rest Ht (At_cons _ _ _ H) Hf ltac:(lia)).
+      f_equal. unfold G. f_equal. lia. }
+    assert (Hcons : consume s 0 (G p o lv t tp fnm) = R q (G (p + 1) o lv t tp fnm)).
+    { unfold consume. rewrite (consume_n_at _ 1 (q :: u ++ rest)); [ reflexivity | exact H | reflexivity | cbn [List.length]; lia ]. }
+    assert (Hdq : strchr_set (str "rVKRO") q = true ->
+                  dd_qualifier s 0 (G p o lv t tp fnm) = R 0 (G (p + 1) o lv t tp fnm)).
+    { intros Hs. unfold dd_qualifier. unfold G at 1.
+      erewrite bind_R; [| apply (curr_at _ (q :: u ++ rest)); [ exact H | reflexivity ] ].
+      rewrite bind_eof. stsimpl. rwf (p >=? L). cbn [Z.eqb hd0]. rewrite Hs.
+      fold (G p o lv t tp fnm). erewrite bind_R; [| exact Hcons ]. reflexivity. }
+    fold (G p o lv t tp fnm).
+    unfold tyqual_okb in Hq. cbn in Hq.
+    repeat (apply orb_prop in Hq; destruct Hq as [Hq | Hq]); try discriminate; apply Z.eqb_eq in Hq; subst q; sc_eval; cbv iota.
+    1-3: (erewrite bind_R; [| apply Hdq; reflexivity ]; exact Hnext).
+    all: erewrite bind_R; [| exact Hcons ]; exact Hnext.
+  - (* S <seq-id> _ [<targs>] *)
+    intros seq n ta Hs Hta IH k p o lv t tp fnm rest Ht H [HfI HfB] Hk.
+    destruct k as [| k]; [ lia |].
+    change (run true s 0 (S k) (LType (-1))) with (type_loop true s 0 (run true s 0 k) (-1)).
+    unfold type_loop. unfold G at 1. cbn [app] in H. rewrite <- app_assoc in H. cbn [app] in H.
+    pose proof (At_lt _ _ _ H).
+    rewrite bind_eof. stsimpl. rwf (p >=? L). cbn [Z.eqb].
+    erewrite bind_R; [| apply (curr_at _ (83 :: seq ++ 95 :: ta ++ rest)); [ exact H | reflexivity ] ].
+    cbn [hd0]. sc_eval. chs. cbn [Z.eqb Pos.eqb].
+    erewrite bind_R; [| apply (peek1_at _ 83 (seq ++ 95 :: ta ++ rest)); [ exact H | reflexivity ] ].
+    fold (G p o lv t tp fnm).
+    erewrite bind_R; [| apply (subst_seq_at p o lv t tp fnm seq (ta ++ rest)); assumption ].
+    assert (H2 : At (p + Z.of_nat (List.length seq) + 2) (ta ++ rest)).
+    { replace (p + Z.of_nat (List.length seq) + 2) with (p + Z.of_nat (List.length (83 :: seq ++ [95])))
+        by (cbn [List.length]; rewrite app_length; cbn [List.length]; lia).
+      apply At_app. cbn [app]. rewrite <- app_assoc. exact H. }
+    unfold G at 1.
+    erewrite bind_R; [| apply (curr_at _ (ta ++ rest)); [ exact H2 | reflexivity ] ].
+    assert (Hc1 : (hd0 (seq ++ 95 :: ta ++ rest) =? 116) = false).
+    { destruct seq as [| c sq]; [ reflexivity |]. cbn [app hd0]. cbn [forallb] in Hs. apply andb_prop in Hs.
+      destruct Hs as [Hc _]. unfold seqchar, isdigit, isupper in Hc. lia. }
+    cbn [Z.eqb]. rewrite Hc1. cbn [andb]. rewrite bind_ret.
+    fold (G (p + Z.of_nat (List.length seq) + 2) o lv t tp fnm).
+    rewrite (targs_cont n ta k _ o lv t tp fnm rest 0 Hta IH ltac:(lia) H2 HfI ltac:(lia) eq_refl).
+    f_equal. unfold G. f_equal. cbn [List.length]. repeat rewrite app_length. cbn [List.length]. lia.
+  - (* <source-name> [<targs>] *)
+    intros id n ta Hid Hta IH k p o lv t tp fnm rest Ht H [HfI HfB] Hk.
+    destruct k as [| k]; [ lia |].
+    change (run true s 0 (S k) (LType (-1))) with (type_loop true s 0 (run true s 0 k) (-1)).
+    unfold type_loop. unfold G at 1. rewrite <- app_assoc in H.
+    pose proof (src_hd_digit id (ta ++ rest) Hid) as Hd.
+    destruct (src id ++ ta ++ rest) as [| d tl] eqn:E.
+    { exfalso. unfold src in E. destruct (hd0_dec_digit _ (id ++ ta ++ rest) (ident_len id Hid)) as [_ Hne].
+      rewrite <- app_assoc in E. destruct (dec (Z.of_nat (List.length id))); [ contradiction | discriminate ]. }
+    cbn [hd0] in Hd. pose proof (At_lt _ _ _ H).
+    rewrite bind_eof. stsimpl. rwf (p >=? L). cbn [Z.eqb].
+    erewrite bind_R; [| apply (curr_at _ (d :: tl)); [ exact H | reflexivity ] ].
+    cbn [hd0].
+    rewrite (sc_digit (str "rVK") d Hd eq_refl). rewrite (sc_digit (str "PROCG") d Hd eq_refl). chs.
+    rwf (d =? 70). rwf (d =? 84). rwf (d =? 65). rwf (d =? 77). rwf (d =? 68). rwf (d =? 83).
+    rwf (d =? 117). rwf (d =? 85). rwf (d =? 73).
+    unfold isdigit. rwt (48 <=? d). rwt (d <=? 57). cbn [andb orb].
+    destruct k as [| k1]; [ lia |]. destruct k1 as [| k2]; [ lia |].
+    change (run true s 0 (S (S k2)) FName) with (dd_name true s 0 (run true s 0 (S k2))).
+    unfold dd_name.
+    erewrite bind_R; [| apply (curr_at _ (d :: tl)); [ exact H | reflexivity ] ].
+    rewrite bind_eof. stsimpl. rwf (p >=? L). cbn [hd0 Z.eqb]. chs. rwf (d =? 78). rwf (d =? 90). rwf (d =? 83).
+    rewrite <- E in H. fold (G p o lv t tp fnm).
+    assert (HB : hd0 (ta ++ rest) <> 66).
+    { destruct (TA_hd n ta Hta) as [E1 | [r E1]]; subst ta; cbn [app hd0]; [ exact HfB | lia ]. }
+    erewrite bind_R; [| apply (unq_skip k2 p o lv t tp fnm id (ta ++ rest)); try assumption; lia ].
+    cbn [Z.ltb Z.compare].
+    rewrite (targs_cont n ta (S k2) _ o lv t tp fnm rest 0 Hta IH ltac:(lia) (At_src_tail _ _ _ H) HfI ltac:(lia) eq_refl).
+    f_equal. unfold G. f_equal. rewrite app_length. lia.
+  - (* N <items> E *)
+    intros n items Hi IH k p o lv t tp fnm rest Ht H [HfI HfB] Hk.
+    destruct k as [| k]; [ lia |].
+    change (run true s 0 (S k) (LType (-1))) with (type_loop true s 0 (run true s 0 k) (-1)).
+    unfold type_loop. unfold G at 1. cbn [app] in H. rewrite <- app_assoc in H. cbn [app] in H.
+    pose proof (At_lt _ _ _ H).
+    rewrite bind_eof. stsimpl. rwf (p >=? L). cbn [Z.eqb].
+    erewrite bind_R; [| apply (curr_at _ (78 :: items ++ 69 :: rest)); [ exact H | reflexivity ] ].
+    cbn [hd0]. sc_eval. chs. cbn [Z.eqb Pos.eqb]. unfold isdigit. cbn [Z.leb Z.compare Pos.compare Pos.compare_cont andb orb].
+    destruct k as [| k1]; [ lia |]. destruct k1 as [| k2]; [ lia |].
+    change (run true s 0 (S (S k2)) FName) with (dd_name true s 0 (run true s 0 (S k2))).
+    unfold dd_name.
+    erewrite bind_R; [| apply (curr_at _ (78 :: items ++ 69 :: rest)); [ exact H | reflexivity ] ].
+    rewrite bind_eof. stsimpl. rwf (p >=? L). cbn [hd0 Z.eqb]. chs. cbn [Z.eqb Pos.eqb].
+    change (run true s 0 (S k2) FNestedName) with (dd_nested_name s 0 (run true s 0 k2)).
+    unfold dd_nested_name.
+    rewrite bind_eof. stsimpl. rwf (p >=? L). cbn [Z.eqb].
+    unfold expect at 1. unfold consume.
+    erewrite bind_R; [| apply (consume_n_at _ 1 (78 :: items ++ 69 :: rest)); [ exact H | reflexivity | cbn [List.length]; lia ] ].
+    cbn [hd0]. chs. cbn [Z.eqb Pos.eqb]. stsimpl.
+    unfold inc_level. rewrite bind_modify. stsimpl.
+    apply At_cons in H. fold (G (p + 1) o (lv + 1) t tp fnm).
+    erewrite bind_R; [| apply (IH k2 (p + 1) o (lv + 1) t tp fnm rest Ht H); lia ].
+    apply At_app in H.
+    unfold expect. unfold consume. unfold G at 1.
+    erewrite bind_R; [| apply (consume_n_at _ 1 (69 :: rest)); [ exact H | reflexivity | cbn [List.length]; lia ] ].
+    cbn [hd0]. chs. cbn [Z.eqb Pos.eqb]. stsimpl.
+    unfold dec_level. rewrite bind_modify. unfold ret, G. stsimpl.
+    replace (lv + 1 - 1) with lv by lia. f_equal. f_equal. cbn [List.length]. rewrite app_length. cbn [List.length]. lia.
+  - (* no <targs> *)
+    intros k p o lv t tp fnm rest Ht Hne. contradiction.
+  - (* I <targ>* E *)
+    intros n l Hl IH k p o lv t tp fnm rest Ht _ H Hk.
+    destruct k as [| k]; [ lia |].
+    change (run true s 0 (S k) FTemplateArgs) with (dd_template_args s 0 (run true s 0 k)).
+    unfold dd_template_args. unfold G at 1. cbn [app] in H. rewrite <- app_assoc in H. cbn [app] in H.
+    pose proof (At_lt _ _ _ H).
+    rewrite bind_eof. stsimpl. rwf (p >=? L). cbn [Z.eqb].
+    unfold expect at 1. unfold consume.
+    erewrite bind_R; [| apply (consume_n_at _ 1 (73 :: l ++ 69 :: rest)); [ exact H | reflexivity | cbn [List.length]; lia ] ].
+    cbn [hd0]. chs. cbn [Z.eqb Pos.eqb]. stsimpl.
+    unfold inc_templates, inc_level. rewrite !bind_modify. stsimpl.
+    fold (G (p + 1) o (lv + 1) t (tp + 1) fnm).
+    apply At_cons in H.
+    erewrite bind_R; [| apply (IH k (p + 1) o (lv + 1) t (tp + 1) fnm rest Ht H); lia ].
+    cbn [Z.ltb Z.compare].
+    apply At_app in H.
+    unfold expect. unfold consume. unfold G at 1.
+    erewrite bind_R; [| apply (consume_n_at _ 1 (69 :: rest)); [ exact H | reflexivity | cbn [List.length]; lia ] ].
+    cbn [hd0]. chs. cbn [Z.eqb Pos.eqb]. stsimpl.
+    unfold dec_level, dec_templates. rewrite !bind_modify. unfold ret, G. stsimpl.
+    replace (lv + 1 - 1) with lv by lia. replace (tp + 1 - 1) with tp by lia.
+    f_equal. f_equal. cbn [List.length]. rewrite app_length. cbn [List.length]. lia.
+  - (* end of the argument list *)
+    intros k p o lv t tp fnm rest Ht H Hk.
+    destruct k as [| k]; [ lia |].
+    cbn [run body]. unfold until_E. unfold G at 1. cbn [app] in H.
+    erewrite bind_R; [| apply (curr_at _ (69 :: rest)); [ exact H | reflexivity ] ].
+    cbn [hd0 List.length]. chs. cbn [Z.eqb Pos.eqb]. replace (p + Z.of_nat 0) with p by lia. reflexivity.
+  - (* a type argument *)
+    intros n m u l Hu IHu Hl IHl k p o lv t tp fnm rest Ht H Hk.
+    destruct k as [| k]; [ lia |].
+    cbn [run body]. unfold until_E. unfold G at 1. rewrite <- app_assoc in H.
+    pose proof (TyL_hd n u Hu (l ++ 69 :: rest)) as Hh.
+    destruct (tyhd_facts _ Hh) as [Fe [FI FB]].
+    assert (Hne : hd0 (u ++ l ++ 69 :: rest) <> 69).
+    { intros E. rewrite E in Fe. discriminate. }
+    assert (Hlt : p < L).
+    { destruct (u ++ l ++ 69 :: rest) as [| c r] eqn:E; [ discriminate |]. apply (At_lt _ _ _ H). }
+    erewrite bind_R; [| apply (curr_at _ (u ++ l ++ 69 :: rest)); [ exact H | reflexivity ] ].
+    chs. rwf (hd0 (u ++ l ++ 69 :: rest) =? 69).
+    (* dd_template_arg -> dd_type *)
+    assert (Harg : run true s 0 k FTemplateArg (G p o lv t tp fnm) = R 0 (G (p + Z.of_nat (List.length u)) o lv t tp fnm)).
+    { destruct k as [| k1]; [ lia |]. destruct k1 as [| k2]; [ lia |].
+      change (run true s 0 (S (S k2)) FTemplateArg) with (dd_template_arg s 0 (run true s 0 (S k2))).
+      unfold dd_template_arg. unfold G at 1.
+      erewrite bind_R; [| apply (curr_at _ (u ++ l ++ 69 :: rest)); [ exact H | reflexivity ] ].
+      rewrite bind_eof. stsimpl. rwf (p >=? L). cbn [Z.eqb]. chs.
+      assert (Hx : (hd0 (u ++ l ++ 69 :: rest) =? 88) = false /\ (hd0 (u ++ l ++ 69 :: rest) =? 76) = false /\
+                   (hd0 (u ++ l ++ 69 :: rest) =? 74) = false).
+      { clear - Hh. unfold tyhd, tyqual_okb, is_builtin in Hh. cbn in Hh.
+        repeat (apply orb_prop in Hh; destruct Hh as [Hh | Hh]); try discriminate;
+          try (apply Z.eqb_eq in Hh; rewrite Hh; repeat split; reflexivity).
+        unfold isdigit in Hh. repeat split; lia. }
+      destruct Hx as [X1 [X2 X3]]. rewrite X1, X2, X3.
+      fold (G p o lv t tp fnm).
+      erewrite bind_R; [| apply (type_wrap n u IHu (TyL_nonempty n u Hu) (S k2) p o lv t tp fnm (l ++ 69 :: rest) Ht H (proj1 (TAL_hd m l Hl rest))); lia ].
+      reflexivity. }
+    fold (G p o lv t tp fnm). erewrite bind_R; [| exact Harg ].
+    cbn [Z.ltb Z.compare].
+    rewrite (IHl k _ o lv t tp fnm rest Ht (At_app _ _ _ H) ltac:(lia)).
+    f_equal. unfold G. f_equal. rewrite app_length. lia.
+  - (* a literal argument  L <builtin> <number> E *)
+    intros c v m l Hc Hv Hl IHl k p o lv t tp fnm rest Ht H Hk.
+    destruct k as [| k]; [ lia |].
+    cbn [run body]. unfold until_E. unfold G at 1. cbn [app] in H. rewrite <- app_assoc in H. cbn [app] in H.
+    pose proof (At_lt _ _ _ H) as Hlt.
+    erewrite bind_R; [| apply (curr_at _ (76 :: c :: dec v ++ 69 :: l ++ 69 :: rest)); [ exact H | reflexivity ] ].
+    cbn [hd0]. chs. cbn [Z.eqb Pos.eqb].
+    pose proof (At_cons _ _ _ H) as H1. pose proof (At_cons _ _ _ H1) as H2.
+    replace (p + 1 + 1) with (p + 2) in H2 by lia.
+    pose proof (At_app _ _ _ H2) as H3.
+    pose proof (At_lt _ _ _ H1) as Hlt1. pose proof (At_lt _ _ _ H3) as Hlt3.
+    destruct (hd0_dec_digit v (69 :: l ++ 69 :: rest) Hv) as [Hdg Hdne].
+    assert (Harg : run true s 0 k FTemplateArg (G p o lv t tp fnm) =
+                   R 0 (G (p + 2 + Z.of_nat (List.length (dec v)) + 1) o lv t tp fnm)).
+    { destruct k as [| k1]; [ lia |]. destruct k1 as [| k2]; [ lia |].
+      change (run true s 0 (S (S k2)) FTemplateArg) with (dd_template_arg s 0 (run true s 0 (S k2))).
+      unfold dd_template_arg. unfold G at 1.
+      erewrite bind_R; [| apply (curr_at _ (76 :: c :: dec v ++ 69 :: l ++ 69 :: rest)); [ exact H | reflexivity ] ].
+      rewrite bind_eof. stsimpl. rwf (p >=? L). cbn [hd0 Z.eqb]. chs. cbn [Z.eqb Pos.eqb].
+      fold (G p o lv t tp fnm).
+      assert (Hep : run true s 0 (S k2) FExprPrimary (G p o lv t tp fnm) =
+                    R 0 (G (p + 2 + Z.of_nat (List.length (dec v)) + 1) o lv t tp fnm)).
+      2:{ erewrite bind_R; [| exact Hep ]. reflexivity. }
+      change (run true s 0 (S k2) FExprPrimary) with (dd_expr_primary s 0 (run true s 0 k2)).
+      unfold dd_expr_primary. unfold G at 1.
+      rewrite bind_eof. stsimpl. rwf (p >=? L). cbn [Z.eqb].
+      unfold expect at 1. unfold consume.
+      erewrite bind_R; [| apply (consume_n_at _ 1 (76 :: c :: dec v ++ 69 :: l ++ 69 :: rest)); [ exact H | reflexivity | cbn [List.length]; lia ] ].
+      cbn [hd0]. chs. cbn [Z.eqb Pos.eqb]. stsimpl.
+      unfold inc_typ, inc_level. rewrite !bind_modify. stsimpl.
+      erewrite bind_R; [| apply (curr_at _ (c :: dec v ++ 69 :: l ++ 69 :: rest)); [ exact H1 | reflexivity ] ].
+      erewrite bind_R; [| apply (peek1_at _ c (dec v ++ 69 :: l ++ 69 :: rest)); [ exact H1 | reflexivity ] ].
+      cbn [hd0]. pose proof (builtin_lower c Hc) as Hlow. chs. rwf (c =? 95). cbn [andb].
+      fold (G (p + 1) o (lv + 1) (t + 1) tp fnm).
+      erewrite bind_R.
+      2:{ apply (type_wrap 1 [c] (P_builtin c Hc) ltac:(discriminate) k2 (p + 1) o (lv + 1) (t + 1) tp fnm
+                   (dec v ++ 69 :: l ++ 69 :: rest)); [ lia | exact H1 | | lia ].
+          apply isdigit_range in Hdg. split; lia. }
+      cbn [List.length]. replace (p + 1 + Z.of_nat 1) with (p + 2) by lia.
+      unfold G at 1.
+      destruct (number_lit_at (mkst (p + 2) L o (t + 1) (lv + 1) tp false fnm false false) v (l ++ 69 :: rest) H2 eq_refl Hv) as [rv Hnum].
+      erewrite bind_R; [| exact Hnum ].
+      stsimpl.
+      erewrite bind_R; [| apply (curr_at _ (69 :: l ++ 69 :: rest)); [ exact H3 | reflexivity ] ].
+      cbn [hd0]. chs. cbn [Z.eqb Pos.eqb]. rewrite bind_ret_k.
+      unfold expect. unfold consume.
+      erewrite bind_R; [| apply (consume_n_at _ 1 (69 :: l ++ 69 :: rest)); [ exact H3 | reflexivity | cbn [List.length]; lia ] ].
+      cbn [hd0]. chs. cbn [Z.eqb Pos.eqb]. stsimpl.
+      unfold dec_level, dec_typ. rewrite !bind_modify. unfold ret, G. stsimpl.
+      replace (t + 1 - 1) with t by lia. replace (lv + 1 - 1) with lv by lia. reflexivity. }
+    fold (G p o lv t tp fnm). erewrite bind_R; [| exact Harg ].
+    cbn [Z.ltb Z.compare].
+    rewrite (IHl k _ o lv t tp fnm rest Ht (At_cons _ _ _ H3) ltac:(lia)).
+    f_equal. unfold G. f_equal. cbn [List.length]. repeat rewrite app_length. cbn [List.length]. lia.
+  - (* end of a nested name *)
+    intros k p o lv t tp fnm rest Ht H Hk.
+    destruct k as [| k]; [ lia |].
+    cbn [run body]. unfold nested_loop, G. cbn [app] in H.
+    erewrite bind_R; [| apply (curr_at _ (69 :: rest)); [ exact H | reflexivity ] ].
+    rewrite bind_eof. stsimpl. pose proof (At_lt _ _ _ H). rwf (p >=? L). cbn [hd0 List.length]. chs.
+    replace (p + Z.of_nat 0) with p by lia. reflexivity.
+  - (* <source-name> [<targs>] in a nested name *)
+    intros id n ta m l Hid Hta IHa Hl IHl k p o lv t tp fnm rest Ht H Hk.
+    destruct k as [| k]; [ lia |]. destruct k as [| k1]; [ lia |].
+    change (run true s 0 (S (S k1)) (LNested 0)) with (nested_loop true s 0 (run true s 0 (S k1)) 0).
+    unfold nested_loop. rewrite <- !app_assoc in H.
+    set (tail := ta ++ l ++ 69 :: rest) in *.
+    pose proof (src_hd_digit id tail Hid) as Hd.
+    destruct (src id ++ tail) as [| d tl] eqn:E.
+    { exfalso. unfold src in E. destruct (hd0_dec_digit _ (id ++ tail) (ident_len id Hid)) as [_ Hne].
+      rewrite <- app_assoc in E. destruct (dec (Z.of_nat (List.length id))); [ contradiction | discriminate ]. }
+    cbn [hd0] in Hd. unfold G at 1.
+    erewrite bind_R; [| apply (curr_at _ (d :: tl)); [ exact H | reflexivity ] ].
+    rewrite bind_eof. stsimpl. pose proof (At_lt _ _ _ H) as Hlt. rwf (p >=? L). cbn [hd0]. chs. cbn [Z.eqb].
+    rwf (d =? 69). cbn [orb negb].
+    erewrite bind_R; [| apply (peek1_at _ d tl); [ exact H | reflexivity ] ].
+    rwf (d =? 68). rwf (d =? 67). cbn [andb orb]. rwf (d =? 85). cbn [orb].
+    unfold islower, isdigit. rwf (97 <=? d). rwt (48 <=? d). rwt (d <=? 57). cbn [andb orb].
+    rewrite <- E in H. fold (G p o lv t tp fnm).
+    pose proof (NI_hd m l Hl rest) as Hh.
+    assert (HB : hd0 tail <> 66).
+    { unfold tail. destruct (TA_hd n ta Hta) as [E1 | [r E1]]; subst ta; cbn [app hd0]; [| lia ].
+      cbn zeta in Hh. lia. }
+    erewrite bind_R; [| apply (unq_skip k1 p o lv t tp fnm id tail); try assumption; lia ].
+    rewrite (ni_cont n ta m l (S k1) _ o lv t tp fnm rest Hta IHa IHl Ht (At_src_tail _ _ _ H) Hh ltac:(lia)).
+    f_equal. unfold G. f_equal. repeat rewrite app_length. lia.
+  - (* S <seq-id> _ [<targs>] in a nested name *)
+    intros seq n ta m l Hs Hta IHa Hl IHl k p o lv t tp fnm rest Ht H Hk.
+    destruct k as [| k]; [ lia |]. destruct k as [| k1]; [ lia |].
+    change (run true s 0 (S (S k1)) (LNested 0)) with (nested_loop true s 0 (run true s 0 (S k1)) 0).
+    unfold nested_loop. cbn [app] in H. rewrite <- !app_assoc in H. cbn [app] in H. rewrite <- app_assoc in H.
+    set (tail := ta ++ l ++ 69 :: rest) in *.
+    unfold G at 1.
+    erewrite bind_R; [| apply (curr_at _ (83 :: seq ++ 95 :: tail)); [ exact H | reflexivity ] ].
+    rewrite bind_eof. stsimpl. pose proof (At_lt _ _ _ H) as Hlt. rwf (p >=? L). cbn [hd0]. chs.
+    cbn [Z.eqb Pos.eqb orb negb].
+    erewrite bind_R; [| apply (peek1_at _ 83 (seq ++ 95 :: tail)); [ exact H | reflexivity ] ].
+    cbn [andb orb]. unfold islower, isdigit. cbn [Z.leb Z.compare Pos.compare Pos.compare_cont andb orb].
+    fold (G p o lv t tp fnm).
+    erewrite bind_R; [| apply (subst_seq_at p o lv t tp fnm seq tail); assumption ].
+    assert (H2 : At (p + Z.of_nat (List.length seq) + 2) tail).
+    { replace (p + Z.of_nat (List.length seq) + 2) with (p + Z.of_nat (List.length (83 :: seq ++ [95])))
+        by (cbn [List.length]; rewrite app_length; cbn [List.length]; lia).
+      apply At_app. cbn [app]. rewrite <- app_assoc. exact H. }
+    rewrite (ni_cont n ta m l (S k1) _ o lv t tp fnm rest Hta IHa IHl Ht H2 (NI_hd m l Hl rest) ltac:(lia)).
+    f_equal. unfold G. f_equal. cbn [List.length]. repeat rewrite app_length. cbn [List.length]. repeat rewrite app_length. lia.
+Qed.
+
+(* ---- size and alphabet of grammar strings *)
+Lemma no_dollar_seq : forall seq, forallb seqchar seq = true -> no_dollar seq.
+Proof.
+  intros seq H. rewrite forallb_forall in H. apply Forall_forall. intros x Hx. specialize (H x Hx).
+  unfold seqchar, isdigit, isupper in H. lia.
+Qed.
+Lemma dec_len1 : forall v, 0 < v < 1000000000 -> (1 <= List.length (dec v))%nat.
+Proof.
+  intros v Hv. destruct (dec_spec v Hv) as [ds [E1 [_ [_ [E4 _]]]]]. rewrite E1. destruct ds; [ contradiction | cbn; lia ].
+Qed.
+Lemma src_len2 : forall id, ident_okb id = true -> (2 <= List.length (src id))%nat.
+Proof.
+  intros id H. pose proof (ident_len id H). pose proof (dec_len1 _ H0). unfold src. rewrite app_length. lia.
+Qed.
+Lemma grammar_cost :
+  (forall n u, TyL n u -> (n + 3 <= 6 * List.length u)%nat) /\ (forall n ta, TA n ta -> (n <= 6 * List.length ta)%nat) /\
+  (forall n l, TAL n l -> (n <= 6 * List.length l + 1)%nat) /\ (forall n l, NI n l -> (n <= 6 * List.length l + 1)%nat).
+Proof.
+  apply grammar_ind; intros; cbn [List.length] in *; repeat rewrite app_length in *; cbn [List.length] in *;
+    repeat rewrite app_length in *; cbn [List.length] in *;
+    try match goal with X : ident_okb ?id = true |- _ => pose proof (src_len2 id X) end;
+    try match goal with X : 0 < ?v < 1000000000 |- _ => pose proof (dec_len1 v X) end; lia.
+Qed.
+Lemma grammar_no_dollar :
+  (forall n u, TyL n u -> no_dollar u) /\ (forall n ta, TA n ta -> no_dollar ta) /\
+  (forall n l, TAL n l -> no_dollar l) /\ (forall n l, NI n l -> no_dollar l).
+Proof.
+  apply grammar_ind; intros; unfold no_dollar in *.
+  - constructor; [| constructor ]. destruct (builtin_facts c H) as [_ [_ [_ [_ [_ [_ [_ [_ [_ [_ [_ [_ [_ F]]]]]]]]]]]]]. exact F.
+  - constructor; [| assumption ]. unfold tyqual_okb in H. cbn in H.
+    repeat (apply orb_prop in H; destruct H as [H | H]); try discriminate; apply Z.eqb_eq in H; lia.
+  - constructor; [ lia |]. apply Forall_app. split; [ apply no_dollar_seq; assumption |]. constructor; [ lia | assumption ].
+  - apply Forall_app. split; [ apply no_dollar_src; assumption | assumption ].
+  - constructor; [ lia |]. apply Forall_app. split; [ assumption | repeat constructor; lia ].
+  - constructor.
+  - constructor; [ lia |]. apply Forall_app. split; [ assumption | repeat constructor; lia ].
+  - constructor.
+  - apply Forall_app. split; assumption.
+  - constructor; [ lia |]. constructor.
+    { destruct (builtin_facts c H) as [_ [_ [_ [_ [_ [_ [_ [_ [_ [_ [_ [_ [_ F]]]]]]]]]]]]]. exact F. }
+    apply Forall_app. split.
+    { destruct (dec_spec v H0) as [ds [E1 [E2 _]]]. rewrite E1. apply no_dollar_digits. exact E2. }
+    constructor; [ lia | assumption ].
+  - constructor.
+  - apply Forall_app. split; [ apply no_dollar_src; assumption |]. apply Forall_app. split; assumption.
+  - constructor; [ lia |]. apply Forall_app. split; [ apply no_dollar_seq; assumption |].
+    constructor; [ lia |]. apply Forall_app. split; assumption.
+Qed.
+
+(* ---- parameter list: <type>* up to the end of the string *)
+Inductive PTys : nat -> list Z -> Prop :=
+| PT_nil : PTys 1 []
+| PT_cons : forall n m u l, TyL n u -> PTys m l -> PTys (n + m + 3) (u ++ l).
+
+Lemma PTys_follow : forall m l, PTys m l -> follow_ok l.
+Proof.
+  intros m l H. destruct H as [| n m u l Hu Hl ]; [ unfold follow_ok; cbn; split; discriminate |].
+  destruct (tyhd_facts _ (TyL_hd n u Hu l)) as [_ [A B]]. split; assumption.
+Qed.
+
+Lemma enc_types_g : forall m l, PTys m l -> forall k p x, At p l -> (m <= k)%nat ->
+  run true s 0 k LEncTypes (NS p (Some x) 1 false) = R 0 (NS (p + Z.of_nat (List.length l)) (Some x) 1 false).
+Proof.
+  intros m l H. induction H as [| n m u l Hu Hl IH ]; intros k p x H Hk.
+  - destruct k as [| k]; [ lia |].
+    cbn [List.length]. cbn [run body]. unfold enc_types_loop, NS.
+    rewrite bind_eof. stsimpl. destruct H as [H0 [H1 H2]]. cbn [List.length] in H2.
+    rwt (p >=? L).
+    erewrite bind_R; [| apply (curr_at _ []); [ split; [ exact H0 | split; [ exact H1 | exact H2 ] ] | reflexivity ] ].
+    cbn [Z.eqb orb]. replace (p + Z.of_nat 0) with p by lia. reflexivity.
+  - destruct k as [| k]; [ lia |].
+    cbn [run body]. unfold enc_types_loop. unfold NS at 1.
+    destruct (tyhd_facts _ (TyL_hd n u Hu l)) as [Fe _].
+    assert (Hlt : p < L).
+    { pose proof (TyL_nonempty n u Hu). destruct u as [| c r]; [ contradiction |]. cbn [app] in H. apply (At_lt _ _ _ H). }
+    rewrite bind_eof. stsimpl. rwf (p >=? L).
+    erewrite bind_R; [| apply (curr_at _ (u ++ l)); [ exact H | reflexivity ] ].
+    cbn [Z.eqb orb]. rewrite Fe.
+    change (mkst p L (Some x) 0 1 0 false false false false) with (G p (Some x) 1 0 0 false).
+    erewrite bind_R; [| apply (type_wrap n u (proj1 grammar_walk n u Hu) (TyL_nonempty n u Hu) k p (Some x) 1 0 0 false l);
+                        [ lia | exact H | exact (PTys_follow m l Hl) | lia ] ].
+    cbn [Z.ltb Z.compare].
+    change (G (p + Z.of_nat (List.length u)) (Some x) 1 0 0 false) with (NS (p + Z.of_nat (List.length u)) (Some x) 1 false).
+    rewrite (IH k _ x (At_app _ _ _ H) ltac:(lia)).
+    f_equal. unfold NS. f_equal. rewrite app_length. lia.
+Qed.
+
+(* ---- the function's own name: (<source-name> [<targs>])+ with general template arguments *)
+Inductive Comps : nat -> list (list Z) -> list Z -> Prop :=
+| CP_nil : Comps 0 [] []
+| CP_cons : forall id n ta m ids l, ident_okb id = true -> TA n ta -> Comps m ids l ->
+            Comps (n + m + 3) (id :: ids) (src id ++ ta ++ l).
+
+Lemma Comps_hd : forall m ids l, Comps m ids l -> forall rest, hd0 rest <> 66 -> hd0 (l ++ rest) <> 66.
+Proof.
+  intros m ids l H rest Hr. destruct H as [| id n ta m ids l Hid Hta Hl ]; [ exact Hr |].
+  rewrite <- !app_assoc. pose proof (src_hd_digit id (ta ++ l ++ rest) Hid). lia.
+Qed.
+Lemma Comps_no_dollar : forall m ids l, Comps m ids l -> no_dollar l.
+Proof.
+  intros m ids l H. induction H; [ constructor |].
+  apply Forall_app. split; [ apply no_dollar_src; assumption |]. apply Forall_app. split; [| assumption ].
+  apply (proj1 (proj2 grammar_no_dollar) n ta). assumption.
+Qed.
+Lemma Comps_cost : forall m ids l, Comps m ids l -> (m <= 6 * List.length l)%nat.
+Proof.
+  intros m ids l H. induction H; [ cbn; lia |].
+  repeat rewrite app_length. pose proof (proj1 (proj2 grammar_cost) n ta H0). pose proof (ident_len id H).
+  assert (1 <= List.length (src id))%nat by (unfold src; rewrite app_length; lia). lia.
+Qed.
+
+Lemma nested_gcomps : forall m ids enc, Comps m ids enc -> forall l k p o lv fnm rest x,
+  At p (enc ++ last_enc l ++ 69 :: rest) -> last_okb l = true ->
+  no_dollar (enc ++ last_enc l ++ 69 :: rest) -> L <= INT_MAX ->
+  out_after o fnm ids = Some x -> fnm_after fnm ids = false -> (m + 3 <= k)%nat ->
+  run true s 0 k (LNested 0) (NS p o lv fnm) =
+  R 0 (NS (p + Z.of_nat (List.length enc) + Z.of_nat (List.length (last_enc l))) (Some (last_out x l)) lv false).
+Proof.
+  intros m ids enc H. induction H as [| id n ta m ids enc Hid Hta Hc IH ]; intros l k p o lv fnm rest x H Hl Hnd HL Hout Hfnm Hk.
+  - cbn [app List.length out_after fnm_after] in *. subst o fnm. replace (p + Z.of_nat 0) with p by lia.
+    destruct k as [| [| [| k]]]; try lia.
+    apply (nested_end l k p x lv rest H Hl).
+  - rewrite <- !app_assoc in H, Hnd.
+    set (tail := enc ++ last_enc l ++ 69 :: rest) in *.
+    assert (HlastB : hd0 (last_enc l ++ 69 :: rest) <> 66).
+    { destruct l as [| kd | kd | c0 c1]; cbn [last_enc app hd0]; try lia.
+      cbn [last_okb] in Hl. apply andb_prop in Hl. destruct Hl as [Hl _]. apply andb_prop in Hl. destruct Hl as [Hl _].
+      unfold op_okb in Hl. apply andb_prop in Hl. destruct Hl as [Hl _]. apply andb_prop in Hl. destruct Hl as [Hl _].
+      unfold islower in Hl. lia. }
+    assert (HtailB : hd0 tail <> 66) by (apply (Comps_hd m ids enc Hc); exact HlastB).
+    destruct k as [| k1]; [ lia |]. destruct k1 as [| k2]; [ lia |].
+    change (run true s 0 (S (S k2)) (LNested 0)) with (nested_loop true s 0 (run true s 0 (S k2)) 0).
+    unfold nested_loop.
+    pose proof (src_hd_digit id (ta ++ tail) Hid) as Hd.
+    destruct (src id ++ ta ++ tail) as [| d tl] eqn:E.
+    { exfalso. unfold src in E. destruct (hd0_dec_digit _ (id ++ ta ++ tail) (ident_len id Hid)) as [_ Hne].
+      rewrite <- app_assoc in E. destruct (dec (Z.of_nat (List.length id))); [ contradiction | discriminate ]. }
+    cbn [hd0] in Hd. unfold NS at 1.
+    erewrite bind_R; [| apply (curr_at _ (d :: tl)); [ exact H | reflexivity ] ].
+    rewrite bind_eof. stsimpl. pose proof (At_lt _ _ _ H) as Hlt. rwf (p >=? L). cbn [hd0]. chs. cbn [Z.eqb].
+    rwf (d =? 69). cbn [orb negb].
+    erewrite bind_R; [| apply (peek1_at _ d tl); [ exact H | reflexivity ] ].
+    rwf (d =? 68). rwf (d =? 67). cbn [andb orb]. rwf (d =? 85). cbn [orb].
+    unfold islower, isdigit. rwf (97 <=? d). rwt (48 <=? d). rwt (d <=? 57). cbn [andb orb].
+    rewrite <- E in H, Hnd.
+    assert (Hnd2 : no_dollar (id ++ ta ++ tail)).
+    { unfold src in Hnd. rewrite <- app_assoc in Hnd. eapply no_dollar_app_r. exact Hnd. }
+    assert (HB2 : hd0 (ta ++ tail) <> 66).
+    { destruct (TA_hd n ta Hta) as [E1 | [r E1]]; subst ta; cbn [app hd0]; [ exact HtailB | lia ]. }
+    fold (NS p o lv fnm).
+    erewrite bind_R; [| apply (unq_src k2 p o lv fnm id (ta ++ tail)); assumption ].
+    apply At_src_tail in H.
+    cbn [out_after fnm_after] in Hout, Hfnm.
+    set (p1 := p + Z.of_nat (List.length (src id))) in *.
+    set (o1 := add_out (sep_out o fnm) id) in *.
+    assert (Hrest : forall kk pp, At pp tail -> (m + 3 <= kk)%nat ->
+              run true s 0 kk (LNested 0) (NS pp o1 lv false) =
+              R 0 (NS (pp + Z.of_nat (List.length enc) + Z.of_nat (List.length (last_enc l))) (Some (last_out x l)) lv false)).
+    { intros kk pp Hpp Hkk. apply (IH l kk pp o1 lv false rest x); try assumption.
+      - eapply no_dollar_app_r. eapply no_dollar_app_r. exact Hnd.
+      - destruct ids; reflexivity. }
+    destruct (TA_hd n ta Hta) as [E1 | [r E1]]; subst ta.
+    + cbn [app List.length] in *. rewrite (Hrest (S k2) p1 H ltac:(lia)).
+      f_equal. unfold NS. f_equal. rewrite app_length. unfold p1. lia.
+    + change (run true s 0 (S k2) (LNested 0)) with (nested_loop true s 0 (run true s 0 k2) 0).
+      unfold nested_loop. unfold NS at 1. cbn [app] in H.
+      erewrite bind_R; [| apply (curr_at _ (73 :: r ++ tail)); [ exact H | reflexivity ] ].
+      rewrite bind_eof. stsimpl. pose proof (At_lt _ _ _ H) as Hlt1. rwf (p1 >=? L). cbn [hd0]. chs.
+      cbn [Z.eqb Pos.eqb orb negb].
+      erewrite bind_R; [| apply (peek1_at _ 73 (r ++ tail)); [ exact H | reflexivity ] ].
+      cbn [andb orb]. unfold islower, isdigit. cbn [Z.leb Z.compare Pos.compare Pos.compare_cont andb orb].
+      change (mkst p1 L o1 0 lv 0 false false false false) with (G p1 o1 lv 0 0 false).
+      change (73 :: r ++ tail) with ((73 :: r) ++ tail) in H.
+      erewrite bind_R; [| apply (proj1 (proj2 grammar_walk) n (73 :: r) Hta k2 p1 o1 lv 0 0 false tail); [ lia | discriminate | exact H | lia ] ].
+      change (G (p1 + Z.of_nat (List.length (73 :: r))) o1 lv 0 0 false) with (NS (p1 + Z.of_nat (List.length (73 :: r))) o1 lv false).
+      rewrite (Hrest k2 _ (At_app _ _ _ H) ltac:(lia)).
+      f_equal. unfold NS. f_equal. repeat rewrite app_length. unfold p1. cbn [List.length]. lia.
+Qed.
+
+Lemma encoding_generic_g : forall c0 tl x pe m ptxt F3,
+  At 0 (95 :: 90 :: c0 :: tl) -> c0 <> 84 -> c0 <> 71 ->
+  run true s 0 (S (S F3)) FName (NS 2 None 1 true) = R 0 (NS pe (Some x) 1 false) ->
+  At pe ptxt -> PTys m ptxt -> (m <= S (S F3))%nat ->
+  run true s 0 (S (S (S F3))) FEncoding (st0 L) = R 0 (NS L (Some x) 0 false).
+Proof.
+  intros c0 tl x pe m ptxt F3 H0 HcT HcG Hname Hpe Hpar HF.
+  pose proof (At_cons _ _ _ H0) as H1. pose proof (At_cons _ _ _ H1) as H2. cbn [Z.add Pos.add] in H1, H2.
+  change (run true s 0 (S (S (S F3))) FEncoding) with (dd_encoding s 0 (run true s 0 (S (S F3)))).
+  unfold dd_encoding, st0.
+  pose proof (At_lt _ _ _ H0) as HL0.
+  rewrite bind_eof. stsimpl. rwf (0 >=? L). cbn [Z.eqb].
+  rewrite bind_gets. stsimpl. cbn [Z.eqb].
+  erewrite bind_R; [| apply (consume_n_at _ 2 (95 :: 90 :: c0 :: tl)); [ exact H0 | reflexivity | cbn [List.length]; lia ] ].
+  stsimpl. cbn [Z.add]. unfold inc_level. rewrite bind_modify. stsimpl. cbn [Z.add].
+  erewrite bind_R; [| apply (curr_at _ (c0 :: tl)); [ exact H2 | reflexivity ] ].
+  cbn [hd0]. chs. rwf (c0 =? 84). rwf (c0 =? 71). cbn [orb].
+  fold (NS 2 None 1 true). erewrite bind_R; [| exact Hname ].
+  cbn [Z.ltb Z.compare].
+  erewrite bind_R; [| apply (enc_types_g m ptxt Hpar (S (S F3)) pe x Hpe HF) ].
+  assert (HpeL : pe + Z.of_nat (List.length ptxt) = L) by (destruct Hpe as [_ [_ HH]]; exact HH).
+  rewrite HpeL.
+  assert (Hend : At L []).
+  { rewrite <- HpeL. replace ptxt with (ptxt ++ []) in Hpe by apply app_nil_r. apply (At_app _ ptxt []). exact Hpe. }
+  unfold NS at 1.
+  erewrite bind_R; [| apply (curr_at _ []); [ exact Hend | reflexivity ] ].
+  cbn [hd0]. chs. cbn [Z.eqb]. rewrite bind_ret.
+  erewrite bind_R; [| apply (curr_at _ []); [ exact Hend | reflexivity ] ].
+  cbn [hd0 Z.eqb]. rewrite bind_ret.
+  unfold dec_level. rewrite bind_modify. stsimpl. reflexivity.
+Qed.
+
+Lemma gencoding_at : forall quals n id ids enc l m ptxt F,
+  s = str "_ZN" ++ quals ++ enc ++ last_enc l ++ 69 :: ptxt ->
+  forallb qual_okb quals = true -> Comps n (id :: ids) enc -> last_okb l = true -> PTys m ptxt ->
+  no_dollar (enc ++ last_enc l ++ 69 :: ptxt) -> L <= INT_MAX ->
+  (List.length quals + n + m + 10 <= F)%nat ->
+  run true s 0 F FEncoding (st0 L) = R 0 (NS L (Some (last_out (join_sep (id :: ids)) l)) 0 false).
+Proof.
+  intros quals n id ids enc l m ptxt F Hs Hq Hc Hl Hpar Hnd HL HF.
+  set (body := quals ++ enc ++ last_enc l ++ 69 :: ptxt) in *.
+  assert (H0 : At 0 (95 :: 90 :: 78 :: body)).
+  { unfold At. split; [ lia |]. split; [ unfold suffix; cbn [Z.add Z.to_nat skipn]; rewrite Hs; reflexivity |].
+    unfold flen. rewrite Hs. cbn [str app List.length]. lia. }
+  pose proof (At_cons _ _ _ H0) as H1. pose proof (At_cons _ _ _ H1) as H2. cbn [Z.add Pos.add] in H1, H2.
+  destruct F as [| F1]; [ lia |]. destruct F1 as [| F2]; [ lia |]. destruct F2 as [| F3]; [ lia |].
+  set (pq := 3 + Z.of_nat (List.length quals)).
+  set (pe := pq + Z.of_nat (List.length enc) + Z.of_nat (List.length (last_enc l)) + 1).
+  pose proof (At_cons _ _ _ H2) as H3. cbn [Z.add Pos.add] in H3.
+  assert (Hpq : At pq (enc ++ last_enc l ++ 69 :: ptxt)) by (apply (At_app _ quals); exact H3).
+  assert (Hpe : At pe ptxt).
+  { unfold pe. replace (pq + Z.of_nat (List.length enc) + Z.of_nat (List.length (last_enc l)) + 1)
+      with (pq + Z.of_nat (List.length enc) + Z.of_nat (List.length (last_enc l)) + Z.of_nat (List.length [69])) by (cbn [List.length]; lia).
+    apply (At_app _ [69] ptxt). apply (At_app _ (last_enc l)). apply (At_app _ enc). exact Hpq. }
+  apply (encoding_generic_g 78 body (last_out (join_sep (id :: ids)) l) pe m ptxt F3 H0); try lia; try assumption.
+  change (run true s 0 (S (S F3)) FName) with (dd_name true s 0 (run true s 0 (S F3))).
+  unfold dd_name. unfold NS at 1.
+  erewrite bind_R; [| apply (curr_at _ (78 :: body)); [ exact H2 | reflexivity ] ].
+  pose proof (At_lt _ _ _ H2).
+  rewrite bind_eof. stsimpl. rwf (2 >=? L). cbn [hd0]. chs. cbn [Z.eqb Pos.eqb].
+  change (run true s 0 (S F3) FNestedName) with (dd_nested_name s 0 (run true s 0 F3)).
+  unfold dd_nested_name.
+  rewrite bind_eof. stsimpl. rwf (2 >=? L). cbn [Z.eqb].
+  unfold expect at 1. unfold consume.
+  erewrite bind_R; [| apply (consume_n_at _ 1 (78 :: body)); [ exact H2 | reflexivity | cbn [List.length]; lia ] ].
+  cbn [hd0]. chs. cbn [Z.eqb Pos.eqb]. stsimpl.
+  unfold inc_level. rewrite bind_modify. stsimpl. cbn [Z.add Pos.add].
+  fold (NS 3 None 2 true).
+  assert (Hne : enc ++ last_enc l ++ 69 :: ptxt <> []).
+  { destruct enc; cbn [app]; [| discriminate ]. destruct (last_enc l); discriminate. }
+  erewrite bind_R.
+  2:{ replace F3 with (List.length quals + (F3 - List.length quals))%nat by lia.
+      rewrite (nested_quals quals _ 3 None 2 true (enc ++ last_enc l ++ 69 :: ptxt) H3 Hq Hne).
+      fold pq.
+      apply (nested_gcomps n (id :: ids) enc Hc l _ pq None 2 true ptxt (join_sep (id :: ids))); try assumption.
+      - apply out_after_start.
+      - reflexivity.
+      - lia. }
+  assert (H4 : At (pq + Z.of_nat (List.length enc) + Z.of_nat (List.length (last_enc l))) (69 :: ptxt)).
+  { apply (At_app _ (last_enc l)). apply (At_app _ enc). exact Hpq. }
+  unfold expect. unfold consume. unfold NS at 1.
+  erewrite bind_R; [| apply (consume_n_at _ 1 (69 :: ptxt)); [ exact H4 | reflexivity | cbn [List.length]; lia ] ].
+  cbn [hd0]. chs. cbn [Z.eqb Pos.eqb]. stsimpl.
+  unfold dec_level. rewrite bind_modify. stsimpl. unfold ret, NS. cbn [Z.sub Z.add Z.opp Z.pos_sub Pos.pred_double].
+  reflexivity.
+Qed.
 End Walk.
 
 (* ================================================================ the formal mangler and the theorem *)
@@ -1790,3 +3039,197 @@ Example roundtrip_examples4 :
   simple_name (erase td_qop) = str "store::Buf::operator+" /\
   qdecl_okb (str "r") td_take = false.
 Proof. vm_compute. repeat split; reflexivity. Qed.
+
+(* ================================================================ general parameter types *)
+(* _Z N [V][K][R|O] (<source-name> [I <builtin>+ E])+ [C<n> | D<n> | <operator>] E <type>*   with
+   <type> ::= (r|V|K|P|R|O|C|G)* (<builtin> | S <seq-id> _ | <source-name> | N (<source-name> | S <seq-id> _)* E)
+   and <seq-id> any string of digits and upper-case letters (base 36, any number of candidates) *)
+Definition ymangle (quals : list Z) (d : tdecl) (tys : list ty) : list Z :=
+  str "_ZN" ++ quals ++ tsrcs (tscopes d) ++ last_enc (t_last d) ++ 69 :: tys_enc tys.
+Definition ydecl_okb (quals : list Z) (d : tdecl) (tys : list ty) : bool :=
+  forallb qual_okb quals && forallb tcomp_okb (tscopes d) && last_okb (t_last d) && forallb ty_okb tys
+  && (Z.of_nat (List.length (ymangle quals d tys)) <=? INT_MAX).
+
+Lemma no_dollar_nitems : forall items, forallb nitem_okb items = true -> no_dollar (nitems_enc items).
+Proof.
+  induction items as [| i items IH]; intros H; [ constructor |].
+  cbn [forallb] in H. apply andb_prop in H. destruct H as [Hi H].
+  unfold nitems_enc. cbn [map List.concat]. apply Forall_app. split; [| apply IH; exact H ].
+  destruct i as [id | seq]; cbn [nitem_enc nitem_okb] in *.
+  - apply no_dollar_src. exact Hi.
+  - constructor; [ lia |]. apply Forall_app. split; [ apply no_dollar_seq; exact Hi | repeat constructor; lia ].
+Qed.
+Lemma no_dollar_ty : forall t, ty_okb t = true -> no_dollar (ty_enc t).
+Proof.
+  intros [quals b] H. unfold ty_okb, ty_enc in *. cbn [ty_quals ty_base] in *.
+  apply andb_prop in H. destruct H as [Hq Hb]. apply Forall_app. split.
+  - rewrite forallb_forall in Hq. apply Forall_forall. intros x Hx. specialize (Hq x Hx).
+    unfold tyqual_okb in Hq. cbn in Hq.
+    repeat (apply orb_prop in Hq; destruct Hq as [Hq | Hq]); try discriminate; apply Z.eqb_eq in Hq; lia.
+  - destruct b as [c | seq | id | items]; cbn [tbase_enc tbase_okb] in *.
+    + constructor; [| constructor ]. destruct (builtin_facts c Hb) as [_ [_ [_ [_ [_ [_ [_ [_ [_ [_ [_ [_ [_ F]]]]]]]]]]]]]. exact F.
+    + constructor; [ lia |]. apply Forall_app. split; [ apply no_dollar_seq; exact Hb | repeat constructor; lia ].
+    + apply no_dollar_src. exact Hb.
+    + constructor; [ lia |]. apply Forall_app. split; [ apply no_dollar_nitems; exact Hb | repeat constructor; lia ].
+Qed.
+Lemma no_dollar_tys : forall tys, forallb ty_okb tys = true -> no_dollar (tys_enc tys).
+Proof.
+  induction tys as [| t tys IH]; intros H; [ constructor |].
+  cbn [forallb] in H. apply andb_prop in H. destruct H as [Ht H].
+  unfold tys_enc. cbn [map List.concat]. apply Forall_app. split; [ apply no_dollar_ty; exact Ht | apply IH; exact H ].
+Qed.
+
+Lemma nitems_length : forall items, forallb nitem_okb items = true ->
+  (List.length items <= List.length (nitems_enc items))%nat.
+Proof.
+  induction items as [| i items IH]; intros H; [ cbn; lia |].
+  cbn [forallb] in H. apply andb_prop in H. destruct H as [Hi H]. specialize (IH H).
+  unfold nitems_enc in *. cbn [map List.concat List.length]. rewrite app_length.
+  assert (1 <= List.length (nitem_enc i))%nat.
+  { destruct i as [id | seq]; cbn [nitem_enc nitem_okb List.length] in *; [| lia ].
+    pose proof (ident_len id Hi). unfold src. rewrite app_length. lia. }
+  lia.
+Qed.
+Lemma tys_cost_bound : forall tys, forallb ty_okb tys = true ->
+  (tys_cost tys + List.length tys <= 8 * List.length (tys_enc tys))%nat.
+Proof.
+  induction tys as [| [quals b] tys IH]; intros H; [ cbn; lia |].
+  cbn [forallb] in H. apply andb_prop in H. destruct H as [Ht H]. specialize (IH H).
+  unfold tys_enc in *. cbn [map List.concat tys_cost fold_right List.length]. fold (tys_cost tys).
+  set (X := List.concat (map ty_enc tys)) in *. clearbody X.
+  rewrite app_length. unfold ty_cost, ty_enc. cbn [ty_quals ty_base]. rewrite app_length.
+  unfold ty_okb in Ht. cbn [ty_quals ty_base] in Ht. apply andb_prop in Ht. destruct Ht as [_ Hb].
+  assert (tbase_cost b + 2 <= 8 * List.length (tbase_enc b))%nat.
+  { destruct b as [c | seq | id | items]; cbn [tbase_cost tbase_enc tbase_okb List.length] in *; try lia.
+    - pose proof (ident_len id Hb). unfold src. rewrite app_length. lia.
+    - rewrite app_length. cbn [List.length]. pose proof (nitems_length items Hb). lia. }
+  lia.
+Qed.
+
+Theorem roundtrip_typed : forall quals d tys, ydecl_okb quals d tys = true ->
+  demangle (ymangle quals d tys) = Str (simple_name (erase d)).
+Proof.
+  intros quals d tys H. unfold ydecl_okb in H.
+  apply andb_prop in H. destruct H as [H HL]. apply andb_prop in H. destruct H as [H Hpar].
+  apply andb_prop in H. destruct H as [H Hl]. apply andb_prop in H. destruct H as [Hq Hok].
+  set (s := ymangle quals d tys) in *.
+  assert (Hs : s = str "_ZN" ++ quals ++ tsrcs (t_first d :: t_rest d) ++ last_enc (t_last d) ++ 69 :: tys_enc tys) by reflexivity.
+  assert (Hnd : no_dollar (tsrcs (t_first d :: t_rest d) ++ last_enc (t_last d) ++ 69 :: tys_enc tys)).
+  { apply Forall_app. split; [ apply no_dollar_tsrcs; exact Hok |].
+    apply Forall_app. split; [ apply no_dollar_last; exact Hl |].
+    constructor; [ lia | apply no_dollar_tys; exact Hpar ]. }
+  assert (HLs : flen s <= INT_MAX) by (unfold flen; apply Z.leb_le; exact HL).
+  assert (Hfuel : (List.length quals + tcosts (t_first d :: t_rest d) + tys_cost tys + List.length tys + 10 <= fuel_of s)%nat).
+  { unfold fuel_of. rewrite Hs. cbn [str]. repeat rewrite app_length. cbn [List.length].
+    pose proof (tcosts_bound _ Hok). pose proof (tys_cost_bound _ Hpar). unfold tscopes in *. lia. }
+  assert (Hids : Forall (fun id => ident_okb id = true) (map fst (t_first d :: t_rest d))).
+  { apply Forall_forall. intros x Hx. apply in_map_iff in Hx. destruct Hx as [c [Hc1 Hc2]]. subst x.
+    unfold tscopes in Hok. rewrite forallb_forall in Hok. specialize (Hok c Hc2).
+    unfold tcomp_okb in Hok. apply andb_prop in Hok. tauto. }
+  assert (Hpre : prefix_of prefix_str s = false) by (rewrite Hs; reflexivity).
+  replace (simple_name (erase d)) with (last_out (join_sep (map fst (t_first d :: t_rest d))) (t_last d)).
+  - apply demangle_of_encoding.
+    + exact Hpre.
+    + unfold mangled_form, stripped. rewrite Hpre. rewrite Hs. reflexivity.
+    + apply (tyencoding_at s quals (t_first d) (t_rest d) (t_last d) tys (fuel_of s) Hs Hq Hok Hl Hpar Hnd HLs Hfuel).
+  - cbn [map] in *. rewrite (last_out_eq _ _ _ Hids Hl). unfold simple_name, erase, scopes. cbn [d_first d_rest d_last].
+    reflexivity.
+Qed.
+
+(* void store::Buf::put(const char*, store::Buf&, store::Buf*, <18th candidate>, <37th candidate>, Other) const & *)
+Definition ty_ex : list ty :=
+  [ mkty (str "PK") (BBuiltin (ch "c"));
+    mkty (str "R") (BNested [ISub []; ISrc (str "Buf")]);
+    mkty (str "P") (BSubst (str "0"));
+    mkty [] (BSubst (str "G"));
+    mkty (str "K") (BSubst (str "10"));
+    mkty [] (BSrc (str "Other")) ].
+Definition td_put : tdecl := mktdecl (str "store", []) [(str "Buf", []); (str "put", [])] LPlain [].
+Example roundtrip_examples5 :
+  ydecl_okb (str "KR") td_put ty_ex = true /\
+  ymangle (str "KR") td_put ty_ex = str "_ZNKR5store3Buf3putEPKcRNS_3BufEPS0_SG_KS10_5Other" /\
+  simple_name (erase td_put) = str "store::Buf::put".
+Proof. vm_compute. repeat split; reflexivity. Qed.
+
+(* ================================================================ the general formal mangler *)
+(* _Z N [V][K][R|O] (<source-name> [<targs>])+ [C<n> | D<n> | <operator>] E <type>*   with the mutually recursive
+   grammar TyL / TA / TAL / NI above: template arguments are types or literals, types may carry template
+   arguments, nested names and base-36 substitutions, to any depth *)
+Definition gmangle (quals enc : list Z) (l : lastk) (ptxt : list Z) : list Z :=
+  str "_ZN" ++ quals ++ enc ++ last_enc l ++ 69 :: ptxt.
+Definition gname (ids : list (list Z)) (l : lastk) : list Z :=
+  join_sep ids ++
+  match l with
+  | LPlain => []
+  | LCtor _ => str "::" ++ last ids []
+  | LDtor _ => str "::~" ++ last ids []
+  | LOp c0 c1 => str "::operator" ++ op_name c0 c1
+  end.
+
+Theorem roundtrip_general : forall quals n id ids enc l m ptxt,
+  forallb qual_okb quals = true -> Comps n (id :: ids) enc -> last_okb l = true -> PTys m ptxt ->
+  Z.of_nat (List.length (gmangle quals enc l ptxt)) <= INT_MAX ->
+  demangle (gmangle quals enc l ptxt) = Str (gname (id :: ids) l).
+Proof.
+  intros quals n id ids enc l m ptxt Hq Hc Hl Hpar HL.
+  set (s := gmangle quals enc l ptxt) in *.
+  assert (Hs : s = str "_ZN" ++ quals ++ enc ++ last_enc l ++ 69 :: ptxt) by reflexivity.
+  assert (Hpnd : no_dollar ptxt).
+  { clear - Hpar. induction Hpar; [ constructor |]. apply Forall_app. split; [| assumption ].
+    apply (proj1 grammar_no_dollar n u). assumption. }
+  assert (Hnd : no_dollar (enc ++ last_enc l ++ 69 :: ptxt)).
+  { apply Forall_app. split; [ apply (Comps_no_dollar n (id :: ids) enc Hc) |].
+    apply Forall_app. split; [ apply no_dollar_last; exact Hl |]. constructor; [ lia | exact Hpnd ]. }
+  assert (Hpc : (m <= 6 * List.length ptxt + 1)%nat).
+  { clear - Hpar. induction Hpar; [ cbn; lia |]. rewrite app_length.
+    pose proof (proj1 grammar_cost n u H). lia. }
+  assert (Hfuel : (List.length quals + n + m + 10 <= fuel_of s)%nat).
+  { unfold fuel_of. rewrite Hs. cbn [str]. repeat rewrite app_length. cbn [List.length].
+    pose proof (Comps_cost n (id :: ids) enc Hc). lia. }
+  assert (Hids : Forall (fun i => ident_okb i = true) (id :: ids)).
+  { clear - Hc. remember (id :: ids) as L0. clear HeqL0. induction Hc; constructor; assumption. }
+  assert (Hpre : prefix_of prefix_str s = false) by (rewrite Hs; reflexivity).
+  replace (gname (id :: ids) l) with (last_out (join_sep (id :: ids)) l).
+  - apply demangle_of_encoding.
+    + exact Hpre.
+    + unfold mangled_form, stripped. rewrite Hpre. rewrite Hs. reflexivity.
+    + apply (gencoding_at s quals n id ids enc l m ptxt (fuel_of s) Hs Hq Hc Hl Hpar Hnd HL Hfuel).
+  - rewrite (last_out_eq _ _ _ Hids Hl). reflexivity.
+Qed.
+
+(* non-vacuity:  void app::Vec<app::Rec, app::Alloc<app::Rec> >::push(app::Rec const&, pointer to app::Vec<int, 3>) *)
+Example roundtrip_examples6 :
+  exists n m enc ptxt,
+    Comps n [str "app"; str "Vec"; str "push"] enc /\ PTys m ptxt /\
+    gmangle [] enc LPlain ptxt = str "_ZN3app3VecINS_3RecENS_5AllocIS0_EEE4pushERKS0_PNS_3VecIiLi3EEE" /\
+    gname [str "app"; str "Vec"; str "push"] LPlain = str "app::Vec::push".
+Proof.
+  do 4 eexists. split; [| split; [| split ] ].
+  - (* 3app  3Vec I NS_3RecE NS_5AllocIS0_EE E  4push *)
+    eapply (CP_cons (str "app") _ [] _ _ _ eq_refl TA_none).
+    eapply (CP_cons (str "Vec") _ _ _ _ _ eq_refl).
+    { eapply TA_some. eapply TAL_ty.
+      { eapply TL_nested. eapply (NI_sub [] _ [] _ _ eq_refl TA_none).
+        eapply (NI_src (str "Rec") _ [] _ _ eq_refl TA_none). apply NI_nil. }
+      eapply TAL_ty.
+      { eapply TL_nested. eapply (NI_sub [] _ [] _ _ eq_refl TA_none).
+        eapply (NI_src (str "Alloc") _ _ _ _ eq_refl).
+        { eapply TA_some. eapply TAL_ty; [ eapply (TL_subst (str "0") _ [] eq_refl TA_none) | apply TAL_nil ]. }
+        apply NI_nil. }
+      apply TAL_nil. }
+    eapply (CP_cons (str "push") _ [] _ _ _ eq_refl TA_none). apply CP_nil.
+  - (* RKS0_  PNS_3VecIiLi3EEE *)
+    eapply PT_cons.
+    { eapply (TL_qual (ch "R")); [ reflexivity |]. eapply (TL_qual (ch "K")); [ reflexivity |].
+      eapply (TL_subst (str "0") _ [] eq_refl TA_none). }
+    eapply PT_cons.
+    { eapply (TL_qual (ch "P")); [ reflexivity |]. eapply TL_nested.
+      eapply (NI_sub [] _ [] _ _ eq_refl TA_none).
+      eapply (NI_src (str "Vec") _ _ _ _ eq_refl).
+      { eapply TA_some. eapply TAL_ty; [ apply (TL_builtin (ch "i")); reflexivity |].
+        eapply (TAL_lit (ch "i") 3); [ reflexivity | lia | apply TAL_nil ]. }
+      apply NI_nil. }
+    apply PT_nil.
+  - vm_compute. reflexivity.
+  - vm_compute. reflexivity.
+Qed.
